@@ -1,6 +1,1668 @@
 (** C07 lemmas over model/ChartData.v. *)
+From Coq Require Import Permutation Sorted.
 From V.lib Require Import Prelude Wire Calendar.
 From V.model Require Import ChartData.
 Local Open Scope Z_scope.
 
-Lemma stub_true : True. Proof. exact I. Qed.
+(* ================================================================== generic list facts *)
+
+Lemma map_seq_eq {A} (f : nat -> A) (l : list A) s :
+  (forall i x, nth_error l i = Some x -> f (s + i)%nat = x) ->
+  map f (seq s (length l)) = l.
+Proof.
+  revert s; induction l as [|a l IH]; intros s H; simpl; auto.
+  f_equal.
+  - specialize (H 0%nat a eq_refl). now rewrite Nat.add_0_r in H.
+  - apply IH. intros i x Hi. specialize (H (S i) x Hi). now rewrite Nat.add_succ_r in H.
+Qed.
+
+Lemma find_app {A} (f : A -> bool) a b :
+  find f (a ++ b) = match find f a with Some x => Some x | None => find f b end.
+Proof. induction a as [|x a IH]; simpl; auto. destruct (f x); auto. Qed.
+
+Lemma first_some_app {A B} (f : A -> option B) a b :
+  first_some f (a ++ b) = match first_some f a with Some x => Some x | None => first_some f b end.
+Proof. induction a as [|x a IH]; simpl; auto. destruct (f x); auto. Qed.
+
+Lemma first_some_none {A B} (f : A -> option B) l :
+  (forall x, In x l -> f x = None) -> first_some f l = None.
+Proof.
+  induction l as [|x l IH]; simpl; intros H; auto.
+  rewrite (H x) by auto. apply IH; auto.
+Qed.
+
+(* ================================================================== numeric caches *)
+
+Lemma find_pt_below vals : forall k j, j < k -> find_pt j (pts_from k vals) = None.
+Proof.
+  induction vals as [|o r IH]; intros k j Hj; simpl; auto.
+  destruct o as [v|]; simpl.
+  - destruct (Z.eqb_spec k j); [lia|]. apply IH; lia.
+  - apply IH; lia.
+Qed.
+
+Lemma find_pt_pts_from vals : forall k (i : nat),
+  find_pt (k + Z.of_nat i) (pts_from k vals) =
+  match nth_error vals i with
+  | Some (Some v) => Some (mkPt (k + Z.of_nat i) v)
+  | _ => None
+  end.
+Proof.
+  induction vals as [|o r IH]; intros k i; simpl.
+  - destruct i; reflexivity.
+  - destruct i as [|i].
+    + simpl. rewrite Z.add_0_r. destruct o as [v|]; simpl.
+      * rewrite Z.eqb_refl. reflexivity.
+      * apply find_pt_below; lia.
+    + replace (k + Z.of_nat (S i)) with ((k + 1) + Z.of_nat i) by lia. simpl nth_error.
+      destruct o as [v|]; simpl.
+      * destruct (Z.eqb_spec k (k + 1 + Z.of_nat i)); [lia|]. apply IH.
+      * apply IH.
+Qed.
+
+(** Reading back the cache the writers build gives the values, None where None was. *)
+Lemma read_num_cache fmt vals : read_cache (num_cache fmt vals) = vals.
+Proof.
+  unfold read_cache, num_cache, cache_count; cbn [ca_pts ca_counts hd].
+  rewrite Nat2Z.id. apply map_seq_eq. intros i x Hi.
+  pose proof (find_pt_pts_from vals 0 i) as H. rewrite Z.add_0_l in H.
+  rewrite Nat.add_0_l, H, Hi. destruct x; reflexivity.
+Qed.
+
+Definition num_ok (vals : list (option num)) : Prop := forall v, In (Some v) vals -> v <> [].
+
+Lemma values_res_ok vals : num_ok vals -> values_res vals = Ok vals.
+Proof.
+  unfold values_res, num_ok; intros H.
+  match goal with |- (if ?b then _ else _) = _ => destruct b eqn:E end; auto.
+  apply existsb_exists in E. destruct E as [o [Hin Ho]].
+  destruct o as [[|c v]|]; try discriminate. exfalso. now apply (H [] Hin).
+Qed.
+
+(* ================================================================== names *)
+
+Lemma hd_tx_names name : hd [] (tx_names name) = xml_norm name.
+Proof. unfold tx_names. destruct (xml_norm name); reflexivity. Qed.
+
+Fixpoint no_cr (s : str) : bool :=
+  match s with [] => true | c :: r => negb (N.eqb c 13) && no_cr r end.
+
+Lemma xml_norm_no_cr s : no_cr s = true -> xml_norm s = s.
+Proof.
+  induction s as [|c r IH]; simpl; auto.
+  destruct (N.eqb c 13); simpl; [discriminate|]. intros H. now rewrite IH.
+Qed.
+
+(* ================================================================== category trees *)
+
+Section tree_ind.
+  Variable P : cat_tree -> Prop.
+  Hypothesis H : forall l subs, Forall P subs -> P (CatNode l subs).
+  Fixpoint cat_tree_ind' (t : cat_tree) : P t :=
+    match t with
+    | CatNode l subs =>
+        H l subs ((fix go (f : list cat_tree) : Forall P f :=
+                     match f with
+                     | [] => Forall_nil P
+                     | s :: f' => Forall_cons s (cat_tree_ind' s) (go f')
+                     end) subs)
+    end.
+End tree_ind.
+
+(** Specification side: root-to-leaf label paths of a category forest. *)
+Fixpoint paths_t (t : cat_tree) : list (list label) :=
+  match t with
+  | CatNode l subs =>
+      match subs with
+      | [] => [[l]]
+      | _ => map (cons l) ((fix go (f : list cat_tree) : list (list label) :=
+                              match f with [] => [] | s :: f' => paths_t s ++ go f' end) subs)
+      end
+  end.
+Fixpoint paths_f (f : list cat_tree) : list (list label) :=
+  match f with [] => [] | s :: f' => paths_t s ++ paths_f f' end.
+
+(** The categories at depth [k] with their leaf counts. *)
+Fixpoint segs_t (k : nat) (t : cat_tree) : list (label * Z) :=
+  match t with
+  | CatNode l subs =>
+      match k with
+      | O => [(l, leaves t)]
+      | S k' => (fix go (f : list cat_tree) : list (label * Z) :=
+                   match f with [] => [] | s :: f' => segs_t k' s ++ go f' end) subs
+      end
+  end.
+Fixpoint segs_f (k : nat) (f : list cat_tree) : list (label * Z) :=
+  match f with [] => [] | s :: f' => segs_t k s ++ segs_f k f' end.
+
+Fixpoint idxs (off : Z) (sg : list (label * Z)) : list (Z * label) :=
+  match sg with [] => [] | (l, c) :: r => (off, l) :: idxs (off + c) r end.
+Fixpoint total (sg : list (label * Z)) : Z :=
+  match sg with [] => 0 | x :: r => snd x + total r end.
+Fixpoint expand (sg : list (label * Z)) : list label :=
+  match sg with [] => [] | x :: r => repeat (fst x) (Z.to_nat (snd x)) ++ expand r end.
+
+Lemma leaves_node l subs :
+  leaves (CatNode l subs) = match subs with [] => 1 | _ => leaves_f subs end.
+Proof.
+  destruct subs as [|s subs]; [reflexivity|].
+  change (leaves (CatNode l (s :: subs))) with
+    (leaves s + (fix go (l : list cat_tree) : Z :=
+                   match l with [] => 0 | s :: l' => leaves s + go l' end) subs).
+  simpl leaves_f. f_equal.
+Qed.
+
+Lemma level_t_S k off l subs : level_t (S k) off (CatNode l subs) = level_f k off subs.
+Proof.
+  simpl. revert off. induction subs as [|a subs IH]; intros off; simpl; [reflexivity|].
+  f_equal. apply IH.
+Qed.
+
+Lemma height_node l subs : height (CatNode l subs) = S (height_f subs).
+Proof. simpl. f_equal. Qed.
+
+Lemma paths_node l subs :
+  paths_t (CatNode l subs) = match subs with [] => [[l]] | _ => map (cons l) (paths_f subs) end.
+Proof.
+  destruct subs as [|s subs]; [reflexivity|].
+  change (paths_t (CatNode l (s :: subs))) with
+    (map (cons l) (paths_t s ++ (fix go (f : list cat_tree) : list (list label) :=
+                                   match f with [] => [] | s :: f' => paths_t s ++ go f' end) subs)).
+  simpl paths_f. reflexivity.
+Qed.
+
+Lemma segs_t_S k l subs : segs_t (S k) (CatNode l subs) = segs_f k subs.
+Proof. simpl. induction subs as [|a subs IH]; simpl; try congruence; reflexivity. Qed.
+
+Lemma leaves_pos t : 1 <= leaves t.
+Proof.
+  induction t as [l subs IH] using cat_tree_ind'.
+  rewrite leaves_node. destruct subs as [|s subs]; [lia|].
+  inversion IH as [|? ? Hs Hr]; subst. simpl.
+  assert (0 <= leaves_f subs).
+  { clear -Hr. induction Hr; simpl; lia. }
+  lia.
+Qed.
+
+Lemma leaves_f_nonneg f : 0 <= leaves_f f.
+Proof. induction f as [|s f IH]; simpl; [lia|]. pose proof (leaves_pos s). lia. Qed.
+
+Definition all_depth (d : nat) (f : list cat_tree) : Prop :=
+  Forall (fun s => tree_depth s = Some d) f.
+
+Lemma forallb_depth d0 rest :
+  forallb (fun s => match tree_depth s with Some d => Nat.eqb d d0 | None => false end) rest = true
+  <-> all_depth d0 rest.
+Proof.
+  unfold all_depth. rewrite forallb_forall, Forall_forall. split; intros H x Hx; specialize (H x Hx).
+  - destruct (tree_depth x); [|discriminate]. apply Nat.eqb_eq in H. now subst.
+  - rewrite H. apply Nat.eqb_refl.
+Qed.
+
+Lemma tree_depth_node l subs D :
+  tree_depth (CatNode l subs) = Some D <->
+  (subs = [] /\ D = 1%nat) \/ (subs <> [] /\ exists D', D = S D' /\ all_depth D' subs).
+Proof.
+  destruct subs as [|s0 rest].
+  - simpl. split.
+    + intros H; inversion H; auto.
+    + intros [[_ ->]|[H _]]; [reflexivity|congruence].
+  - cbn [tree_depth]. fold tree_depth. split.
+    + intros H. right. split; [discriminate|].
+      destruct (tree_depth s0) as [d0|] eqn:E0; [|discriminate].
+      destruct (forallb _ rest) eqn:Ef; [|discriminate].
+      inversion H; subst. exists d0. split; auto.
+      constructor; auto. now apply forallb_depth.
+    + intros [[H _]|[_ [D' [-> Hall]]]]; [discriminate|].
+      inversion Hall as [|? ? H0 Hr]; subst. rewrite H0.
+      apply forallb_depth in Hr. now rewrite Hr.
+Qed.
+
+Lemma forest_depth_all f D : f <> [] -> (forest_depth f = Some D <-> all_depth D f).
+Proof.
+  destruct f as [|t0 rest]; [congruence|]. intros _. cbn [forest_depth]. split.
+  - intros H. destruct (tree_depth t0) as [d0|] eqn:E0; [|discriminate].
+    destruct (forallb _ rest) eqn:Ef; [|discriminate]. inversion H; subst.
+    constructor; auto. now apply forallb_depth.
+  - intros Hall. inversion Hall as [|? ? H0 Hr]; subst. rewrite H0.
+    apply forallb_depth in Hr. now rewrite Hr.
+Qed.
+
+Lemma tree_depth_pos t D : tree_depth t = Some D -> (1 <= D)%nat.
+Proof.
+  destruct t as [l subs]. rewrite tree_depth_node.
+  intros [[_ ->]|[_ [D' [-> _]]]]; lia.
+Qed.
+
+Lemma height_f_all f D : f <> [] -> Forall (fun s => height s = D) f -> height_f f = D.
+Proof.
+  induction f as [|a f IH]; [congruence|]. intros _ Hall.
+  inversion Hall as [|? ? Ha Hf]; subst. simpl.
+  destruct f as [|b f]; [simpl; lia|]. rewrite IH by (auto; discriminate). lia.
+Qed.
+
+Lemma height_depth t : forall D, tree_depth t = Some D -> height t = D.
+Proof.
+  induction t as [l subs IH] using cat_tree_ind'. intros D HD.
+  rewrite height_node. apply tree_depth_node in HD.
+  destruct HD as [[-> ->]|[Hne [D' [-> Hall]]]]; [reflexivity|].
+  f_equal. apply height_f_all; auto.
+  unfold all_depth in Hall. rewrite Forall_forall in *. intros s Hs. apply IH; auto.
+Qed.
+
+(* ---- levels: idx = first-leaf offset ---- *)
+
+Lemma idxs_app off a b : idxs off (a ++ b) = idxs off a ++ idxs (off + total a) b.
+Proof.
+  revert off; induction a as [|[l c] a IH]; intros off; simpl.
+  - now rewrite Z.add_0_r.
+  - f_equal. rewrite IH. do 2 f_equal. lia.
+Qed.
+Lemma total_app a b : total (a ++ b) = total a + total b.
+Proof. induction a as [|x a IH]; simpl; lia. Qed.
+Lemma expand_app a b : expand (a ++ b) = expand a ++ expand b.
+Proof. induction a as [|x a IH]; simpl; [reflexivity|]. now rewrite IH, app_assoc. Qed.
+
+Definition counts_pos (sg : list (label * Z)) : Prop := Forall (fun x => 1 <= snd x) sg.
+
+(** In a forest of uniform depth D, for every level k below D: the (idx, label) pairs the
+    data classes yield are the level's categories laid end to end, each covering its leaf
+    count, and together they cover all leaves. *)
+Lemma level_t_segs t : forall D k off, tree_depth t = Some D -> (k < D)%nat ->
+  level_t k off t = idxs off (segs_t k t) /\ total (segs_t k t) = leaves t /\ counts_pos (segs_t k t).
+Proof.
+  induction t as [l subs IH] using cat_tree_ind'. intros D k off HD Hk.
+  destruct k as [|k].
+  - cbn [level_t segs_t idxs total snd]. repeat split; try lia.
+    constructor; [|constructor]. apply leaves_pos.
+  - rewrite level_t_S, segs_t_S, leaves_node.
+    apply tree_depth_node in HD. destruct HD as [[-> ->]|[Hne [D' [-> Hall]]]]; [lia|].
+    assert (Hk' : (k < D')%nat) by lia.
+    assert (level_f k off subs = idxs off (segs_f k subs) /\ total (segs_f k subs) = leaves_f subs
+            /\ counts_pos (segs_f k subs)) as Hf.
+    { clear Hne. revert off. induction subs as [|s subs IHs]; intros off.
+      - simpl. repeat split; constructor.
+      - inversion IH as [|? ? Hs Hr]; inversion Hall as [|? ? Ds Dr]; subst.
+        destruct (Hs D' k off Ds Hk') as [E1 [E2 E3]].
+        destruct (IHs Hr Dr (off + leaves s)) as [F1 [F2 F3]].
+        simpl. rewrite idxs_app, total_app, E1, E2, F1, F2. repeat split.
+        apply Forall_app; auto. }
+    destruct subs; [congruence|]. exact Hf.
+Qed.
+
+Lemma level_f_segs f : forall D k off, all_depth D f -> (k < D)%nat ->
+  level_f k off f = idxs off (segs_f k f) /\ total (segs_f k f) = leaves_f f /\ counts_pos (segs_f k f).
+Proof.
+  induction f as [|s f IH]; intros D k off Hall Hk.
+  - simpl. repeat split; constructor.
+  - inversion Hall as [|? ? Ds Dr]; subst.
+    destruct (level_t_segs s D k off Ds Hk) as [E1 [E2 E3]].
+    destruct (IH D k (off + leaves s) Dr Hk) as [F1 [F2 F3]].
+    simpl. rewrite idxs_app, total_app, E1, E2, F1, F2. repeat split. apply Forall_app; auto.
+Qed.
+
+(* ---- the label at level k above each leaf = k-th label of the leaf's path ---- *)
+
+Definition dlabel : label := LStr [].
+
+Lemma length_paths_t t : Z.of_nat (length (paths_t t)) = leaves t.
+Proof.
+  induction t as [l subs IH] using cat_tree_ind'.
+  rewrite paths_node, leaves_node. destruct subs as [|s subs]; [reflexivity|].
+  rewrite map_length. revert IH. generalize (s :: subs) as f. clear. intros f IH.
+  induction IH as [|a f Ha Hf IHf]; simpl; [reflexivity|].
+  rewrite app_length, Nat2Z.inj_add. lia.
+Qed.
+Lemma length_paths_f f : Z.of_nat (length (paths_f f)) = leaves_f f.
+Proof.
+  induction f as [|a f IH]; simpl; [reflexivity|].
+  rewrite app_length, Nat2Z.inj_add, length_paths_t. lia.
+Qed.
+
+Lemma expand_segs_t t : forall D k, tree_depth t = Some D -> (k < D)%nat ->
+  expand (segs_t k t) = map (fun p => nth k p dlabel) (paths_t t).
+Proof.
+  induction t as [l subs IH] using cat_tree_ind'. intros D k HD Hk.
+  destruct k as [|k].
+  - cbn [segs_t expand fst snd]. rewrite app_nil_r, <- length_paths_t, Nat2Z.id.
+    rewrite paths_node. destruct subs as [|s subs]; [reflexivity|].
+    rewrite map_length, map_map. cbn [nth].
+    generalize (paths_f (s :: subs)). intros ps. induction ps; simpl; congruence.
+  - rewrite segs_t_S, paths_node.
+    apply tree_depth_node in HD. destruct HD as [[-> ->]|[Hne [D' [-> Hall]]]]; [lia|].
+    assert (Hk' : (k < D')%nat) by lia.
+    destruct subs as [|s subs]; [congruence|]. clear Hne.
+    rewrite map_map. cbn [nth]. revert IH Hall. generalize (s :: subs) as f. intros f IH Hall.
+    induction f as [|a f IHf]; [reflexivity|].
+    inversion IH; inversion Hall; subst. simpl.
+    rewrite expand_app, map_app. f_equal; eauto.
+Qed.
+Lemma expand_segs_f f : forall D k, all_depth D f -> (k < D)%nat ->
+  expand (segs_f k f) = map (fun p => nth k p dlabel) (paths_f f).
+Proof.
+  induction f as [|a f IH]; intros D k Hall Hk; [reflexivity|].
+  inversion Hall; subst. simpl. rewrite expand_app, map_app. f_equal; eauto using expand_segs_t.
+Qed.
+
+Lemma paths_t_length t : forall D, tree_depth t = Some D -> Forall (fun p => length p = D) (paths_t t).
+Proof.
+  induction t as [l subs IH] using cat_tree_ind'. intros D HD.
+  rewrite paths_node. apply tree_depth_node in HD.
+  destruct HD as [[-> ->]|[Hne [D' [-> Hall]]]]; [repeat constructor|].
+  destruct subs as [|s subs]; [congruence|]. clear Hne.
+  revert IH Hall. generalize (s :: subs) as f. intros f IH Hall.
+  apply Forall_forall. intros p Hp. apply in_map_iff in Hp. destruct Hp as [q [<- Hq]]. simpl. f_equal.
+  induction f as [|a f IHf]; [destruct Hq|].
+  inversion IH; inversion Hall; subst. simpl in Hq. apply in_app_or in Hq. destruct Hq as [Hq|Hq].
+  - specialize (H1 D' H5). rewrite Forall_forall in H1. now apply H1.
+  - now apply IHf.
+Qed.
+Lemma paths_f_length f D : all_depth D f -> Forall (fun p => length p = D) (paths_f f).
+Proof.
+  induction f as [|a f IH]; intros Hall; [constructor|].
+  inversion Hall; subst. simpl. apply Forall_app. split; auto using paths_t_length.
+Qed.
+
+(* ---- the parent scan of Categories._parentage finds the enclosing category ---- *)
+
+Section scan.
+  Variable tau : label -> str.
+  Definition tau' (il : Z * label) : Z * str := (fst il, tau (snd il)).
+
+  Lemma scan_parent_segs sg : forall off (j : nat) cur, counts_pos sg ->
+    Z.of_nat j < total sg ->
+    snd (scan_parent (off + Z.of_nat j) (map tau' (idxs off sg)) cur) = tau (nth j (expand sg) dlabel).
+  Proof.
+    induction sg as [|[l c] sg IH]; intros off j cur Hpos Hj; simpl in Hj; [lia|].
+    inversion Hpos as [|? ? Hc Hr]; subst. simpl in Hc.
+    cbn [idxs map scan_parent tau' fst snd expand].
+    destruct (Z.ltb_spec (off + Z.of_nat j) off) as [Hlt|_]; [lia|].
+    destruct (Z.ltb_spec (Z.of_nat j) c) as [Hin|Hout].
+    - (* the leaf is under this category: the scan stops at the next one *)
+      rewrite app_nth1 by (rewrite repeat_length; lia).
+      rewrite (nth_indep _ _ l) by (rewrite repeat_length; lia).
+      rewrite nth_repeat.
+      destruct sg as [|[l2 c2] sg]; [reflexivity|].
+      cbn [idxs map scan_parent tau' fst snd].
+      destruct (Z.ltb_spec (off + Z.of_nat j) (off + c)); [reflexivity|lia].
+    - rewrite app_nth2 by (rewrite repeat_length; lia). rewrite repeat_length.
+      replace (off + Z.of_nat j) with ((off + c) + Z.of_nat (j - Z.to_nat c)) by lia.
+      apply IH; auto. lia.
+  Qed.
+
+  (** [parentage] over a stack of levels, each given by its segments. *)
+  Lemma parentage_segs (sgs : list (list (label * Z))) : forall (j : nat) acc,
+    Forall (fun sg => counts_pos sg /\ Z.of_nat j < total sg) sgs ->
+    parentage (Z.of_nat j) acc (map (fun sg => map tau' (idxs 0 sg)) sgs)
+    = acc ++ map (fun sg => tau (nth j (expand sg) dlabel)) sgs.
+  Proof.
+    induction sgs as [|sg sgs IH]; intros j acc Hall; simpl; [now rewrite app_nil_r|].
+    inversion Hall as [|? ? [Hpos Hj] Hr]; subst.
+    destruct sg as [|[l c] sg]; [simpl in Hj; lia|].
+    change (map tau' (idxs 0 ((l, c) :: sg))) with (tau' (0, l) :: map tau' (idxs (0 + c) sg)).
+    cbn [parentage].
+    change (tau' (0, l) :: map tau' (idxs (0 + c) sg)) with (map tau' (idxs 0 ((l, c) :: sg))).
+    pose proof (scan_parent_segs ((l, c) :: sg) 0 j (tau' (0, l)) Hpos Hj) as Hs.
+    rewrite Z.add_0_l in Hs. rewrite Hs, IH by auto. now rewrite <- app_assoc.
+  Qed.
+End scan.
+
+(* ---- flattened labels of written levels = root-to-leaf paths ---- *)
+
+Lemma leaf_segs_t t : forall k, tree_depth t = Some (S k) -> Forall (fun x => snd x = 1) (segs_t k t).
+Proof.
+  induction t as [l subs IH] using cat_tree_ind'. intros k HD.
+  apply tree_depth_node in HD. destruct k as [|k].
+  - destruct HD as [[-> _]|[Hne [D' [E Hall]]]].
+    + repeat constructor.
+    + injection E as <-. destruct subs as [|s subs]; [congruence|].
+      inversion Hall as [|? ? Hs _]; subst. apply tree_depth_pos in Hs. lia.
+  - destruct HD as [[_ E]|[Hne [D' [E Hall]]]]; [discriminate|]. injection E as <-.
+    rewrite segs_t_S. clear Hne. induction subs as [|s subs IHs]; [constructor|].
+    inversion IH; inversion Hall; subst. simpl. apply Forall_app. split; auto.
+Qed.
+Lemma leaf_segs_f f k : all_depth (S k) f -> Forall (fun x => snd x = 1) (segs_f k f).
+Proof.
+  induction f as [|s f IH]; intros Hall; [constructor|].
+  inversion Hall; subst. simpl. apply Forall_app. split; auto using leaf_segs_t.
+Qed.
+
+Lemma idxs_ones sg : forall off, Forall (fun x => snd x = 1) sg ->
+  idxs off sg = map (fun j => (off + Z.of_nat j, nth j (expand sg) dlabel)) (seq 0 (length sg))
+  /\ total sg = Z.of_nat (length sg).
+Proof.
+  induction sg as [|[l c] sg IH]; intros off Hall; [split; reflexivity|].
+  inversion Hall as [|? ? Hc Hr]; subst. simpl in Hc. subst c.
+  destruct (IH (off + 1) Hr) as [E1 E2].
+  cbn [idxs length seq map total snd expand fst]. rewrite E1, E2. split; [|lia].
+  rewrite Z.add_0_r. f_equal. rewrite <- seq_shift, map_map. apply map_ext. intros j.
+  f_equal. lia.
+Qed.
+
+Lemma rev_seq_S n : rev (seq 0 (S n)) = n :: rev (seq 0 n).
+Proof. rewrite seq_S, rev_app_distr. reflexivity. Qed.
+
+Lemma nth_map_in {A B} (g : A -> B) l j dA dB : (j < length l)%nat -> nth j (map g l) dB = g (nth j l dA).
+Proof. intros H. rewrite (nth_indep _ dB (g dA)) by (now rewrite map_length). apply map_nth. Qed.
+
+Lemma map_nth_seq {A} (p : list A) d : map (fun k => nth k p d) (seq 0 (length p)) = p.
+Proof. apply map_seq_eq. intros i x Hi. simpl. now apply nth_error_nth. Qed.
+
+Lemma levels_uniform f D : f <> [] -> all_depth D f ->
+  levels f = map (fun k => level_f k 0 f) (rev (seq 0 D)).
+Proof.
+  intros Hne Hall. unfold levels. destruct f as [|t f]; [congruence|].
+  rewrite (height_f_all (t :: f) D); auto.
+  unfold all_depth in Hall. rewrite Forall_forall in *. intros s Hs. apply height_depth; auto.
+Qed.
+
+Theorem flattened_levels tau f D : f <> [] -> all_depth D f ->
+  flattened_of_levels (map (map (tau' tau)) (levels f)) = map (map tau) (paths_f f).
+Proof.
+  intros Hne Hall. rewrite (levels_uniform f D) by auto.
+  destruct D as [|D1].
+  { destruct f as [|t f]; [congruence|]. inversion Hall as [|? ? Ht _]; subst.
+    apply tree_depth_pos in Ht. lia. }
+  rewrite rev_seq_S. cbn [map flattened_of_levels].
+  destruct (level_f_segs f (S D1) D1 0 Hall ltac:(lia)) as [EL [ET EP]].
+  pose proof (leaf_segs_f f D1 Hall) as Hones.
+  destruct (idxs_ones (segs_f D1 f) 0 Hones) as [EI EN].
+  set (n := length (segs_f D1 f)) in *.
+  assert (Hn : n = length (paths_f f)).
+  { apply Nat2Z.inj. rewrite length_paths_f, <- ET. lia. }
+  (* the parent levels, as segments *)
+  assert (Hrest : map (map (tau' tau)) (map (fun k => level_f k 0 f) (rev (seq 0 D1)))
+          = map (fun sg => map (tau' tau) (idxs 0 sg)) (map (fun k => segs_f k f) (rev (seq 0 D1)))).
+  { rewrite !map_map. apply map_ext_in. intros k Hk. apply in_rev, in_seq in Hk.
+    destruct (level_f_segs f (S D1) k 0 Hall ltac:(lia)) as [E _]. now rewrite E. }
+  rewrite Hrest, EL, EI, !map_map. rewrite Hn.
+  rewrite <- (map_length (map tau) (paths_f f)).
+  apply map_seq_eq. intros j p' Hj. rewrite Nat.add_0_l. cbn [tau' fst snd].
+  rewrite Z.add_0_l.
+  rewrite nth_error_map in Hj. destruct (nth_error (paths_f f) j) as [p|] eqn:Hp; [|discriminate].
+  injection Hj as <-.
+  assert (Hjl : (j < length (paths_f f))%nat) by (apply nth_error_Some; congruence).
+  rewrite <- (map_map (fun k => segs_f k f) (fun sg => map (tau' tau) (idxs 0 sg))).
+  rewrite parentage_segs.
+  2:{ apply Forall_forall. intros sg Hsg. apply in_map_iff in Hsg. destruct Hsg as [k [<- Hk]].
+      apply in_rev, in_seq in Hk.
+      destruct (level_f_segs f (S D1) k 0 Hall ltac:(lia)) as [_ [T P]]. split; auto.
+      rewrite T, <- length_paths_f. lia. }
+  (* every label of the tuple is the path's label at that depth *)
+  rewrite map_map.
+  assert (Hlab : forall k, (k < S D1)%nat ->
+            tau (nth j (expand (segs_f k f)) dlabel) = tau (nth k p dlabel)).
+  { intros k Hk. rewrite (expand_segs_f f (S D1) k) by auto.
+    rewrite (nth_map_in _ _ _ [] dlabel) by auto. f_equal. f_equal.
+    now apply nth_error_nth. }
+  rewrite Hlab by lia.
+  rewrite (map_ext_in _ (fun k => tau (nth k p dlabel))).
+  2:{ intros k Hk. apply in_rev, in_seq in Hk. apply Hlab. lia. }
+  change ([tau (nth D1 p dlabel)] ++ map (fun k => tau (nth k p dlabel)) (rev (seq 0 D1)))
+    with (map (fun k => tau (nth k p dlabel)) (D1 :: rev (seq 0 D1))).
+  rewrite <- rev_seq_S, map_rev, rev_involutive.
+  assert (Hlen : length p = S D1).
+  { pose proof (paths_f_length f (S D1) Hall) as HF. rewrite Forall_forall in HF.
+    apply HF. eapply nth_error_In; eauto. }
+  rewrite <- Hlen, <- map_map, map_nth_seq. reflexivity.
+Qed.
+
+(* ================================================================== stable sort by a key *)
+
+Section sorting.
+  Context {A : Type} (key : A -> Z).
+  Definition le_key (a b : A) : Prop := key a <= key b.
+
+  Lemma insert_by_perm x l : Permutation (insert_by key x l) (x :: l).
+  Proof.
+    induction l as [|y l IH]; simpl; auto.
+    destruct (key x <=? key y); auto.
+    eapply perm_trans; [apply perm_skip, IH|apply perm_swap].
+  Qed.
+  Lemma sort_by_perm l : Permutation (sort_by key l) l.
+  Proof.
+    induction l as [|x l IH]; simpl; auto.
+    eapply perm_trans; [apply insert_by_perm|]. now apply perm_skip.
+  Qed.
+  Lemma sort_by_length l : length (sort_by key l) = length l.
+  Proof. apply Permutation_length, sort_by_perm. Qed.
+  Lemma sort_by_in x l : In x (sort_by key l) <-> In x l.
+  Proof. split; apply Permutation_in; [|symmetry]; apply sort_by_perm. Qed.
+
+  Lemma insert_by_sorted x l : StronglySorted le_key l -> StronglySorted le_key (insert_by key x l).
+  Proof.
+    induction l as [|y l IH]; intros Hs; simpl.
+    - repeat constructor.
+    - inversion Hs as [|? ? Hl Hy]; subst.
+      destruct (Z.leb_spec (key x) (key y)) as [Hle|Hgt].
+      + constructor; auto. constructor; [exact Hle|].
+        rewrite Forall_forall in *. intros z Hz. specialize (Hy z Hz). unfold le_key in *. lia.
+      + constructor; auto. rewrite Forall_forall in *. intros z Hz.
+        apply (Permutation_in _ (insert_by_perm x l)) in Hz. destruct Hz as [<-|Hz].
+        * unfold le_key; lia.
+        * now apply Hy.
+  Qed.
+  Lemma sort_by_sorted l : StronglySorted le_key (sort_by key l).
+  Proof. induction l as [|x l IH]; simpl; [constructor|]. now apply insert_by_sorted. Qed.
+
+  Lemma insert_by_first x l : (forall y, In y l -> key x <= key y) -> insert_by key x l = x :: l.
+  Proof.
+    destruct l as [|y l]; simpl; auto. intros H.
+    destruct (Z.leb_spec (key x) (key y)); auto. specialize (H y (or_introl eq_refl)). lia.
+  Qed.
+  Lemma sort_by_id l : StronglySorted le_key l -> sort_by key l = l.
+  Proof.
+    induction l as [|x l IH]; intros Hs; simpl; auto.
+    inversion Hs as [|? ? Hl Hx]; subst. rewrite IH by auto.
+    apply insert_by_first. rewrite Forall_forall in Hx. exact Hx.
+  Qed.
+
+  Lemma insert_by_filter f x s : StronglySorted le_key s ->
+    filter f (insert_by key x s) = if f x then insert_by key x (filter f s) else filter f s.
+  Proof.
+    induction s as [|y s IH]; intros Hs; simpl.
+    - destruct (f x); reflexivity.
+    - inversion Hs as [|? ? Hl Hy]; subst.
+      destruct (Z.leb_spec (key x) (key y)) as [Hle|Hgt]; simpl.
+      + destruct (f x) eqn:Fx; auto.
+        symmetry. apply insert_by_first. intros z Hz.
+        assert (In z (y :: s)) as Hz'.
+        { destruct (f y); [destruct Hz as [<-|Hz]; [now left|right]|right];
+            apply filter_In in Hz; tauto. }
+        destruct Hz' as [<-|Hz']; [exact Hle|].
+        rewrite Forall_forall in Hy. specialize (Hy z Hz'). unfold le_key in Hy. lia.
+      + rewrite IH by auto. destruct (f y) eqn:Fy, (f x) eqn:Fx; simpl; auto.
+        destruct (Z.leb_spec (key x) (key y)); [lia|reflexivity].
+  Qed.
+  Lemma sort_by_filter f l : sort_by key (filter f l) = filter f (sort_by key l).
+  Proof.
+    induction l as [|x l IH]; simpl; auto.
+    rewrite insert_by_filter by apply sort_by_sorted.
+    destruct (f x); simpl; now rewrite IH.
+  Qed.
+
+  Lemma insert_by_last x s : (forall y, In y s -> key y < key x) -> insert_by key x s = s ++ [x].
+  Proof.
+    induction s as [|y s IH]; intros H; simpl; auto.
+    destruct (Z.leb_spec (key x) (key y)) as [Hle|_].
+    - specialize (H y (or_introl eq_refl)). lia.
+    - f_equal. apply IH. intros z Hz. apply H. now right.
+  Qed.
+  Lemma insert_by_snoc y s x : key y < key x -> insert_by key y (s ++ [x]) = insert_by key y s ++ [x].
+  Proof.
+    intros H. induction s as [|a s IH]; simpl.
+    - destruct (Z.leb_spec (key y) (key x)); [reflexivity|lia].
+    - destruct (key y <=? key a); [reflexivity|]. now rewrite IH.
+  Qed.
+  Lemma sort_by_max l1 l2 x : (forall y, In y (l1 ++ l2) -> key y < key x) ->
+    sort_by key (l1 ++ x :: l2) = sort_by key (l1 ++ l2) ++ [x].
+  Proof.
+    induction l1 as [|a l1 IH]; intros H; simpl.
+    - apply insert_by_last. intros y Hy. apply H. simpl. exact (proj1 (sort_by_in y l2) Hy).
+    - rewrite IH by (intros y Hy; apply H; now right).
+      apply insert_by_snoc. apply H. now left.
+  Qed.
+End sorting.
+
+Lemma sort_by_map {A B} (k1 : A -> Z) (k2 : B -> Z) (h : A -> B) l :
+  (forall x, k2 (h x) = k1 x) -> sort_by k2 (map h l) = map h (sort_by k1 l).
+Proof.
+  intros Hk. induction l as [|x l IH]; simpl; auto. rewrite IH.
+  generalize (sort_by k1 l) as s. induction s as [|y s IHs]; simpl; auto.
+  rewrite !Hk. destruct (k1 x <=? k1 y); simpl; congruence.
+Qed.
+
+(* ================================================================== children of c:ser *)
+
+Definition proj {X} (g : child -> list X) (kids : list child) : list X := concat (map g kids).
+Definition olist {X} (o : option X) : list X := match o with Some x => [x] | None => [] end.
+
+Lemma proj_app {X} (g : child -> list X) a b : proj g (a ++ b) = proj g a ++ proj g b.
+Proof. unfold proj. now rewrite map_app, concat_app. Qed.
+
+Lemma first_some_proj {X} (f : child -> option X) kids :
+  first_some f kids = hd_error (proj (fun k => olist (f k)) kids).
+Proof.
+  induction kids as [|k kids IH]; simpl; auto. unfold proj in *. simpl.
+  destruct (f k); simpl; auto.
+Qed.
+
+(** [g] only looks at children with tag [t]. *)
+Definition supported {X} (g : child -> list X) (t : N) : Prop :=
+  forall k, g k <> [] -> child_tag k = t.
+Definition clean (t : N) (kids : list child) : Prop := forall k, In k kids -> child_tag k <> t.
+
+Lemma proj_clean {X} (g : child -> list X) t kids : supported g t -> clean t kids -> proj g kids = [].
+Proof.
+  intros Hs Hc. induction kids as [|k kids IH]; auto. unfold proj in *. simpl.
+  rewrite IH by (intros k' Hk'; apply Hc; now right).
+  destruct (g k) eqn:E; auto. exfalso. apply (Hc k (or_introl eq_refl)). apply Hs. congruence.
+Qed.
+
+Lemma clean_remove t kids : clean t (remove_tag t kids).
+Proof.
+  intros k Hk. apply filter_In in Hk. destruct Hk as [_ Hk].
+  apply negb_true_iff in Hk. now apply N.eqb_neq in Hk.
+Qed.
+Lemma clean_remove_other t t' kids : clean t kids -> clean t (remove_tag t' kids).
+Proof. intros H k Hk. apply filter_In in Hk. apply H. tauto. Qed.
+
+Lemma insert_before_tag_split t new kids :
+  exists l1 l2, kids = l1 ++ l2 /\ insert_before_tag t new kids = l1 ++ new :: l2.
+Proof.
+  induction kids as [|k kids [l1 [l2 [E1 E2]]]]; simpl.
+  - exists [], []. auto.
+  - destruct (N.eqb (child_tag k) t).
+    + exists [], (k :: kids). auto.
+    + exists (k :: l1), l2. simpl. split; congruence.
+Qed.
+Lemma insert_before_split sc new kids :
+  exists l1 l2, kids = l1 ++ l2 /\ insert_before sc new kids = l1 ++ new :: l2.
+Proof.
+  unfold insert_before. destruct (first_found sc kids).
+  - apply insert_before_tag_split.
+  - exists kids, []. rewrite app_nil_r. auto.
+Qed.
+
+Lemma clean_insert t sc new kids : clean t kids -> child_tag new <> t -> clean t (insert_before sc new kids).
+Proof.
+  intros Hc Hn. destruct (insert_before_split sc new kids) as [l1 [l2 [E1 E2]]].
+  rewrite E2. subst kids. intros k Hk. apply in_app_or in Hk. destruct Hk as [Hk|[<-|Hk]]; auto.
+  - apply Hc, in_or_app; auto.
+  - apply Hc, in_or_app; auto.
+Qed.
+
+Lemma proj_insert_clean {X} (g : child -> list X) t sc new kids :
+  supported g t -> clean t kids -> proj g (insert_before sc new kids) = g new.
+Proof.
+  intros Hs Hc. destruct (insert_before_split sc new kids) as [l1 [l2 [E1 E2]]].
+  rewrite E2. subst kids. change (new :: l2) with ([new] ++ l2). rewrite !proj_app.
+  rewrite (proj_clean g t l1), (proj_clean g t l2); auto.
+  - unfold proj; simpl. now rewrite !app_nil_r.
+  - intros k Hk. apply Hc, in_or_app; auto.
+  - intros k Hk. apply Hc, in_or_app; auto.
+Qed.
+Lemma proj_insert_nil {X} (g : child -> list X) sc new kids :
+  g new = [] -> proj g (insert_before sc new kids) = proj g kids.
+Proof.
+  intros Hn. destruct (insert_before_split sc new kids) as [l1 [l2 [E1 E2]]].
+  rewrite E2. subst kids. change (new :: l2) with ([new] ++ l2). rewrite !proj_app.
+  unfold proj at 2; simpl. now rewrite Hn.
+Qed.
+
+Lemma filter_insert P sc new kids : P new = false ->
+  filter P (insert_before sc new kids) = filter P kids.
+Proof.
+  intros Hn. destruct (insert_before_split sc new kids) as [l1 [l2 [E1 E2]]].
+  rewrite E2. subst kids. rewrite !filter_app. simpl. now rewrite Hn.
+Qed.
+Lemma filter_remove P t kids : (forall k, P k = true -> child_tag k <> t) ->
+  filter P (remove_tag t kids) = filter P kids.
+Proof.
+  intros H. unfold remove_tag. induction kids as [|k kids IH]; simpl; auto.
+  destruct (N.eqb_spec (child_tag k) t) as [E|E]; simpl.
+  - destruct (P k) eqn:Pk; auto. exfalso. now apply (H k Pk).
+  - now rewrite IH.
+Qed.
+
+Lemma sup_names : supported kid_names tg_tx.
+Proof. intros [] H; simpl in *; congruence. Qed.
+Lemma sup_cat : supported (fun k => olist (kid_cat k)) tg_cat.
+Proof. intros [] H; simpl in *; congruence. Qed.
+Lemma sup_cat_counts : supported kid_cat_counts tg_cat.
+Proof. intros [] H; simpl in *; congruence. Qed.
+Lemma sup_val : supported (fun k => olist (kid_val k)) tg_val.
+Proof. intros [] H; simpl in *; congruence. Qed.
+Lemma sup_xval : supported (fun k => olist (kid_xval k)) tg_xVal.
+Proof. intros [] H; simpl in *; congruence. Qed.
+Lemma sup_yval : supported (fun k => olist (kid_yval k)) tg_yVal.
+Proof. intros [] H; simpl in *; congruence. Qed.
+Lemma sup_bub : supported (fun k => olist (kid_bub k)) tg_bubbleSize.
+Proof. intros [] H; simpl in *; congruence. Qed.
+
+(** What it means for a c:ser to carry the data of one series (as the readers see it). *)
+Definition kids_reflect (kids : list child) (sd : ser_data) : Prop :=
+  proj kid_names kids = tx_names (sd_name sd) /\
+  match sd with
+  | SDCat cx cs =>
+      proj (fun k => olist (kid_cat k)) kids = [cx] /\
+      proj kid_cat_counts kids = cx_counts cx /\
+      proj (fun k => olist (kid_val k)) kids = [num_cache (cs_fmt cs) (cs_vals cs)]
+  | SDXy _ fmt xs ys =>
+      proj (fun k => olist (kid_xval k)) kids = [num_cache fmt xs] /\
+      proj (fun k => olist (kid_yval k)) kids = [num_cache fmt ys]
+  | SDBub _ fmt xs ys zs =>
+      proj (fun k => olist (kid_xval k)) kids = [num_cache fmt xs] /\
+      proj (fun k => olist (kid_yval k)) kids = [num_cache fmt ys] /\
+      proj (fun k => olist (kid_bub k)) kids = [num_cache fmt zs]
+  end.
+
+Ltac tag_neq := let H := fresh in intros H; vm_compute in H; discriminate.
+
+Lemma rewrite_reflects sc s sd : kids_reflect (s_kids (rewrite_ser sc s sd)) sd.
+Proof.
+  destruct sd as [cx cs|name fmt xs ys|name fmt xs ys zs]; unfold rewrite_ser; cbn [s_kids].
+  - set (k3 := remove_tag tg_val (remove_tag tg_cat (remove_tag tg_tx (s_kids s)))).
+    assert (C1 : clean tg_tx k3) by (unfold k3; auto using clean_remove, clean_remove_other).
+    assert (C2 : clean tg_cat k3) by (unfold k3; auto using clean_remove, clean_remove_other).
+    assert (C3 : clean tg_val k3) by (unfold k3; auto using clean_remove, clean_remove_other).
+    set (k4 := insert_before (sc_tx sc) (KTx (tx_names (cs_name cs))) k3).
+    assert (D2 : clean tg_cat k4) by (apply clean_insert; auto; tag_neq).
+    assert (D3 : clean tg_val k4) by (apply clean_insert; auto; tag_neq).
+    set (k5 := insert_before (sc_cat sc) (KCat cx) k4).
+    assert (E3 : clean tg_val k5) by (apply clean_insert; auto; tag_neq).
+    split; [|split; [|split]].
+    + rewrite proj_insert_nil by reflexivity. unfold k5. rewrite proj_insert_nil by reflexivity.
+      unfold k4. now rewrite (proj_insert_clean _ tg_tx) by auto using sup_names.
+    + rewrite proj_insert_nil by reflexivity. unfold k5.
+      now rewrite (proj_insert_clean _ tg_cat) by auto using sup_cat.
+    + rewrite proj_insert_nil by reflexivity. unfold k5.
+      now rewrite (proj_insert_clean _ tg_cat) by auto using sup_cat_counts.
+    + now rewrite (proj_insert_clean _ tg_val) by auto using sup_val.
+  - set (k3 := remove_tag tg_yVal (remove_tag tg_xVal (remove_tag tg_tx (s_kids s)))).
+    assert (C1 : clean tg_tx k3) by (unfold k3; auto using clean_remove, clean_remove_other).
+    assert (C2 : clean tg_xVal k3) by (unfold k3; auto using clean_remove, clean_remove_other).
+    assert (C3 : clean tg_yVal k3) by (unfold k3; auto using clean_remove, clean_remove_other).
+    set (k4 := insert_before (sc_tx sc) (KTx (tx_names name)) k3).
+    assert (D2 : clean tg_xVal k4) by (apply clean_insert; auto; tag_neq).
+    assert (D3 : clean tg_yVal k4) by (apply clean_insert; auto; tag_neq).
+    set (k5 := insert_before (sc_xVal sc) (KXVal (num_cache fmt xs)) k4).
+    assert (E3 : clean tg_yVal k5) by (apply clean_insert; auto; tag_neq).
+    split; [|split].
+    + rewrite proj_insert_nil by reflexivity. unfold k5. rewrite proj_insert_nil by reflexivity.
+      unfold k4. now rewrite (proj_insert_clean _ tg_tx) by auto using sup_names.
+    + rewrite proj_insert_nil by reflexivity. unfold k5.
+      now rewrite (proj_insert_clean _ tg_xVal) by auto using sup_xval.
+    + now rewrite (proj_insert_clean _ tg_yVal) by auto using sup_yval.
+  - set (k3 := remove_tag tg_bubbleSize (remove_tag tg_yVal (remove_tag tg_xVal (remove_tag tg_tx (s_kids s))))).
+    assert (C1 : clean tg_tx k3) by (unfold k3; auto using clean_remove, clean_remove_other).
+    assert (C2 : clean tg_xVal k3) by (unfold k3; auto using clean_remove, clean_remove_other).
+    assert (C3 : clean tg_yVal k3) by (unfold k3; auto using clean_remove, clean_remove_other).
+    assert (C4 : clean tg_bubbleSize k3) by (unfold k3; auto using clean_remove, clean_remove_other).
+    set (k4 := insert_before (sc_tx sc) (KTx (tx_names name)) k3).
+    assert (D2 : clean tg_xVal k4) by (apply clean_insert; auto; tag_neq).
+    assert (D3 : clean tg_yVal k4) by (apply clean_insert; auto; tag_neq).
+    assert (D4 : clean tg_bubbleSize k4) by (apply clean_insert; auto; tag_neq).
+    set (k5 := insert_before (sc_xVal sc) (KXVal (num_cache fmt xs)) k4).
+    assert (E3 : clean tg_yVal k5) by (apply clean_insert; auto; tag_neq).
+    assert (E4 : clean tg_bubbleSize k5) by (apply clean_insert; auto; tag_neq).
+    set (k6 := insert_before (sc_yVal sc) (KYVal (num_cache fmt ys)) k5).
+    assert (F4 : clean tg_bubbleSize k6) by (apply clean_insert; auto; tag_neq).
+    split; [|split; [|split]].
+    + rewrite proj_insert_nil by reflexivity. unfold k6. rewrite proj_insert_nil by reflexivity.
+      unfold k5. rewrite proj_insert_nil by reflexivity.
+      unfold k4. now rewrite (proj_insert_clean _ tg_tx) by auto using sup_names.
+    + rewrite proj_insert_nil by reflexivity. unfold k6. rewrite proj_insert_nil by reflexivity.
+      unfold k5. now rewrite (proj_insert_clean _ tg_xVal) by auto using sup_xval.
+    + rewrite proj_insert_nil by reflexivity. unfold k6.
+      now rewrite (proj_insert_clean _ tg_yVal) by auto using sup_yval.
+    + now rewrite (proj_insert_clean _ tg_bubbleSize) by auto using sup_bub.
+Qed.
+
+Lemma proj_others {X} (g : child -> list X) tags : (forall t p, g (KOther t p) = []) -> proj g (others tags) = [].
+Proof. intros H. unfold proj, others. induction tags; simpl; auto. now rewrite H. Qed.
+
+Lemma cat_kids_reflect pre post cx s : kids_reflect (cat_ser_kids pre post cx s) (SDCat cx s).
+Proof.
+  unfold kids_reflect, cat_ser_kids. cbn [sd_name].
+  change (KTx (tx_names (cs_name s)) :: others pre ++ [KCat cx; KVal (num_cache (cs_fmt s) (cs_vals s))] ++ others post)
+    with ([KTx (tx_names (cs_name s))] ++ others pre ++ [KCat cx; KVal (num_cache (cs_fmt s) (cs_vals s))] ++ others post).
+  repeat split; rewrite !proj_app, !proj_others by reflexivity; unfold proj; simpl;
+    now rewrite ?app_nil_r.
+Qed.
+Lemma xy_kids_reflect pre post name fmt xs ys : kids_reflect (xy_ser_kids pre post name fmt xs ys) (SDXy name fmt xs ys).
+Proof.
+  unfold kids_reflect, xy_ser_kids. cbn [sd_name].
+  change (KTx (tx_names name) :: others pre ++ [KXVal (num_cache fmt xs); KYVal (num_cache fmt ys)] ++ others post)
+    with ([KTx (tx_names name)] ++ others pre ++ [KXVal (num_cache fmt xs); KYVal (num_cache fmt ys)] ++ others post).
+  repeat split; rewrite !proj_app, !proj_others by reflexivity; unfold proj; simpl;
+    now rewrite ?app_nil_r.
+Qed.
+Lemma bub_kids_reflect name fmt xs ys zs : kids_reflect (bub_ser_kids name fmt xs ys zs) (SDBub name fmt xs ys zs).
+Proof.
+  unfold kids_reflect, bub_ser_kids. cbn [sd_name].
+  change (KTx (tx_names name) :: others [tg_invert] ++ [KXVal (num_cache fmt xs); KYVal (num_cache fmt ys); KBub (num_cache fmt zs)] ++ others [tg_bubble3D])
+    with ([KTx (tx_names name)] ++ others [tg_invert] ++ [KXVal (num_cache fmt xs); KYVal (num_cache fmt ys); KBub (num_cache fmt zs)] ++ others [tg_bubble3D]).
+  repeat split; rewrite !proj_app, !proj_others by reflexivity; unfold proj; simpl;
+    now rewrite ?app_nil_r.
+Qed.
+
+(* ---- reading a series that reflects its data ---- *)
+
+Definition sd_is_xy (sd : ser_data) : bool := match sd with SDCat _ _ => false | _ => true end.
+Definition sd_values (sd : ser_data) : list (option num) :=
+  match sd with SDCat _ cs => cs_vals cs | SDXy _ _ _ ys => ys | SDBub _ _ _ ys _ => ys end.
+Definition sd_xvalues (sd : ser_data) : option (list (option num)) :=
+  match sd with SDCat _ _ => None | SDXy _ _ xs _ => Some xs | SDBub _ _ xs _ _ => Some xs end.
+Definition sd_sizes (sd : ser_data) : option (list (option num)) :=
+  match sd with SDBub _ _ _ _ zs => Some zs | _ => None end.
+
+Definition ser_cache (f : child -> option cache) (s : ser) : option (list (option str)) :=
+  option_map read_cache (first_some f (s_kids s)).
+
+Lemma reflect_name s sd : kids_reflect (s_kids s) sd -> ser_name s = xml_norm (sd_name sd).
+Proof. intros [H _]. unfold ser_name. fold (proj kid_names (s_kids s)). rewrite H. apply hd_tx_names. Qed.
+
+Lemma reflect_values ptag s sd : kids_reflect (s_kids s) sd -> is_xy_plot ptag = sd_is_xy sd ->
+  ser_values_raw ptag s = sd_values sd.
+Proof.
+  intros [_ H] Hx. unfold ser_values_raw. rewrite Hx.
+  destruct sd as [cx cs|name fmt xs ys|name fmt xs ys zs]; cbn [sd_is_xy sd_values];
+    rewrite first_some_proj.
+  - destruct H as [_ [_ H]]. rewrite H. simpl. apply read_num_cache.
+  - destruct H as [_ H]. rewrite H. simpl. apply read_num_cache.
+  - destruct H as [_ [H _]]. rewrite H. simpl. apply read_num_cache.
+Qed.
+
+Lemma reflect_xvalues s sd : kids_reflect (s_kids s) sd -> sd_is_xy sd = true ->
+  ser_cache kid_xval s = sd_xvalues sd.
+Proof.
+  intros [_ H] Hx. unfold ser_cache. rewrite first_some_proj.
+  destruct sd as [cx cs|name fmt xs ys|name fmt xs ys zs]; [discriminate| |].
+  - destruct H as [H _]. rewrite H. simpl. now rewrite read_num_cache.
+  - destruct H as [H _]. rewrite H. simpl. now rewrite read_num_cache.
+Qed.
+Lemma reflect_sizes s name fmt xs ys zs : kids_reflect (s_kids s) (SDBub name fmt xs ys zs) ->
+  ser_cache kid_bub s = Some zs.
+Proof.
+  intros [_ [_ [_ H]]]. unfold ser_cache. rewrite first_some_proj, H. simpl. now rewrite read_num_cache.
+Qed.
+
+Lemma reflect_cat s cx cs : kids_reflect (s_kids s) (SDCat cx cs) ->
+  first_some kid_cat (s_kids s) = Some cx /\ proj kid_cat_counts (s_kids s) = cx_counts cx.
+Proof. intros [_ [H1 [H2 _]]]. rewrite first_some_proj, H1. auto. Qed.
+
+(* ---- what a rewrite leaves alone ---- *)
+
+Definition data_tags (sd : ser_data) : list N :=
+  match sd with
+  | SDCat _ _ => [tg_tx; tg_cat; tg_val]
+  | SDXy _ _ _ _ => [tg_tx; tg_xVal; tg_yVal]
+  | SDBub _ _ _ _ _ => [tg_tx; tg_xVal; tg_yVal; tg_bubbleSize]
+  end.
+(** The children of c:ser whose tag is not among [tags], in document order. *)
+Definition other_kids (tags : list N) (kids : list child) : list child :=
+  filter (fun k => negb (memN (child_tag k) tags)) kids.
+
+Lemma other_remove tags t kids : memN t tags = true -> other_kids tags (remove_tag t kids) = other_kids tags kids.
+Proof.
+  intros Ht. apply filter_remove. intros k Hk E. apply negb_true_iff in Hk. congruence.
+Qed.
+
+Lemma rewrite_others sc s sd :
+  s_idx (rewrite_ser sc s sd) = s_idx s /\ s_order (rewrite_ser sc s sd) = s_order s /\
+  other_kids (data_tags sd) (s_kids (rewrite_ser sc s sd)) = other_kids (data_tags sd) (s_kids s).
+Proof.
+  split; [reflexivity|split; [reflexivity|]].
+  destruct sd as [cx cs|name fmt xs ys|name fmt xs ys zs]; unfold rewrite_ser; cbn [s_kids data_tags];
+    unfold other_kids at 1; rewrite !filter_insert by reflexivity.
+  - change (other_kids [tg_tx; tg_cat; tg_val] (remove_tag tg_val (remove_tag tg_cat (remove_tag tg_tx (s_kids s))))
+            = other_kids [tg_tx; tg_cat; tg_val] (s_kids s)).
+    now rewrite !other_remove by reflexivity.
+  - change (other_kids [tg_tx; tg_xVal; tg_yVal] (remove_tag tg_yVal (remove_tag tg_xVal (remove_tag tg_tx (s_kids s))))
+            = other_kids [tg_tx; tg_xVal; tg_yVal] (s_kids s)).
+    now rewrite !other_remove by reflexivity.
+  - change (other_kids [tg_tx; tg_xVal; tg_yVal; tg_bubbleSize]
+              (remove_tag tg_bubbleSize (remove_tag tg_yVal (remove_tag tg_xVal (remove_tag tg_tx (s_kids s)))))
+            = other_kids [tg_tx; tg_xVal; tg_yVal; tg_bubbleSize] (s_kids s)).
+    now rewrite !other_remove by reflexivity.
+Qed.
+
+(* ================================================================== plots: series order and rewriting *)
+
+Lemma combine_seq_snd {A} (l : list A) a : map snd (combine (seq a (length l)) l) = l.
+Proof. revert a; induction l as [|x l IH]; intros a; simpl; auto. now rewrite IH. Qed.
+Lemma combine_seq_fst {A} (l : list A) a : map fst (combine (seq a (length l)) l) = seq a (length l).
+Proof. revert a; induction l as [|x l IH]; intros a; simpl; auto. now rewrite IH. Qed.
+
+Lemma decorate_snd l : map snd (decorate l) = l.
+Proof. apply combine_seq_snd. Qed.
+Lemma decorate_fst l : map fst (decorate l) = seq 0 (length l).
+Proof. apply combine_seq_fst. Qed.
+
+Lemma sorted_decorate l : map snd (sort_by dkey (decorate l)) = sort_by s_order l.
+Proof. rewrite <- (sort_by_map dkey s_order snd) by reflexivity. now rewrite decorate_snd. Qed.
+
+Lemma order_positions_nodup l : NoDup (order_positions l).
+Proof.
+  unfold order_positions.
+  eapply Permutation_NoDup.
+  - apply Permutation_map. symmetry. apply sort_by_perm.
+  - rewrite decorate_fst. apply seq_NoDup.
+Qed.
+
+Fixpoint zip_rw (sc : succs) (l : list ser) (ds : list ser_data) : list ser :=
+  match l, ds with
+  | s :: l', d :: ds' => rewrite_ser sc s d :: zip_rw sc l' ds'
+  | _, _ => l
+  end.
+
+Lemma zip_rw_nil sc l : zip_rw sc l [] = l.
+Proof. destruct l; reflexivity. Qed.
+Lemma zip_rw_length sc l ds : length (zip_rw sc l ds) = length l.
+Proof. revert ds; induction l as [|s l IH]; intros [|d ds]; simpl; auto. Qed.
+Lemma zip_rw_app sc a b ds : zip_rw sc (a ++ b) ds = zip_rw sc a ds ++ zip_rw sc b (skipn (length a) ds).
+Proof.
+  revert ds; induction a as [|s a IH]; intros ds; simpl; auto.
+  destruct ds as [|d ds]; simpl.
+  - now rewrite zip_rw_nil.
+  - now rewrite IH.
+Qed.
+
+Lemma index_of_mid q pre post : ~ In q pre -> index_of q (pre ++ q :: post) = Some (length pre).
+Proof.
+  induction pre as [|x pre IH]; intros Hn; simpl.
+  - now rewrite Nat.eqb_refl.
+  - destruct (Nat.eqb_spec x q) as [->|_]; [exfalso; apply Hn; now left|].
+    rewrite IH; auto. intros H; apply Hn; now right.
+Qed.
+
+Lemma skipn_nth {A} n : forall (l : list A),
+  skipn n l = match nth_error l n with Some x => x :: skipn (S n) l | None => [] end.
+Proof.
+  induction n as [|n IH]; intros [|x l]; simpl; auto. apply IH.
+Qed.
+
+Section rewrite_plot.
+  Variables (sc : succs) (data : list ser_data).
+
+  Definition rw_at (ord : list nat) (qs : nat * ser) : ser :=
+    match index_of (fst qs) ord with
+    | Some r => match nth_error data r with
+                | Some sd => rewrite_ser sc (snd qs) sd
+                | None => snd qs
+                end
+    | None => snd qs
+    end.
+
+  Lemma rw_at_order ord qs : s_order (rw_at ord qs) = dkey qs.
+  Proof. unfold rw_at, dkey. destruct (index_of _ _); auto. destruct (nth_error _ _); auto. Qed.
+
+  Lemma map_rw_sorted S2 : forall S1, NoDup (map fst (S1 ++ S2)) ->
+    map (rw_at (map fst (S1 ++ S2))) S2 = zip_rw sc (map snd S2) (skipn (length S1) data).
+  Proof.
+    induction S2 as [|[q s] S2 IH]; intros S1 Hnd; [reflexivity|].
+    pose proof (IH (S1 ++ [(q, s)])) as IH'. rewrite <- app_assoc in IH'. cbn [app] in IH'.
+    specialize (IH' Hnd).
+    cbn [map]. rewrite IH'. clear IH IH'.
+    unfold rw_at. cbn [fst snd].
+    assert (Hi : index_of q (map fst (S1 ++ (q, s) :: S2)) = Some (length S1)).
+    { rewrite map_app. cbn [map fst]. rewrite index_of_mid, map_length; auto.
+      rewrite map_app in Hnd. cbn [map fst] in Hnd. apply NoDup_remove_2 in Hnd.
+      intros H; apply Hnd, in_or_app; now left. }
+    rewrite Hi, app_length. cbn [length]. rewrite Nat.add_1_r.
+    rewrite (skipn_nth (length S1) data).
+    destruct (nth_error data (length S1)) eqn:En; [reflexivity|].
+    apply nth_error_None in En. rewrite skipn_all2 by lia. now rewrite zip_rw_nil.
+  Qed.
+
+  Lemma plot_sers_rewrite p : plot_sers (rewrite_plot sc data p) = zip_rw sc (plot_sers p) data.
+  Proof.
+    unfold plot_sers, rewrite_plot. cbn [p_sers set_sers].
+    fold (rw_at (order_positions (p_sers p))).
+    rewrite (sort_by_map dkey s_order) by apply rw_at_order.
+    unfold order_positions.
+    pose proof (map_rw_sorted (sort_by dkey (decorate (p_sers p))) [] (order_positions_nodup (p_sers p))) as H.
+    cbn [app length skipn] in H. rewrite H, sorted_decorate. reflexivity.
+  Qed.
+End rewrite_plot.
+
+Lemma length_plot_sers p : length (plot_sers p) = length (p_sers p).
+Proof. apply sort_by_length. Qed.
+
+Lemma area_sers_app a b : area_sers_of (a ++ b) = area_sers_of a ++ area_sers_of b.
+Proof. unfold area_sers_of. now rewrite map_app, concat_app. Qed.
+
+Lemma area_rewrite_plots sc ps : forall data,
+  area_sers_of (rewrite_plots sc data ps) = zip_rw sc (area_sers_of ps) data.
+Proof.
+  induction ps as [|p ps IH]; intros data; [reflexivity|].
+  cbn [rewrite_plots]. change (area_sers_of (?x :: ?r)) with (plot_sers x ++ area_sers_of r).
+  rewrite plot_sers_rewrite, IH, zip_rw_app, length_plot_sers. reflexivity.
+Qed.
+
+Definition frame (p : plot) : N * N := (p_tag p, p_payload p).
+
+Lemma frames_rewrite_plots sc ps : forall data, map frame (rewrite_plots sc data ps) = map frame ps.
+Proof. induction ps as [|p ps IH]; intros data; simpl; auto. now rewrite IH. Qed.
+
+(* ================================================================== trimming *)
+
+Lemma filter_all_true {A} (f : A -> bool) l : (forall x, In x l -> f x = true) -> filter f l = l.
+Proof.
+  induction l as [|x l IH]; intros H; simpl; auto.
+  rewrite (H x) by now left. f_equal. apply IH. intros y Hy. apply H. now right.
+Qed.
+
+Lemma remove_nth_filter {A} (l : list A) : forall a pos,
+  remove_nth pos l = map snd (filter (fun d => negb (Nat.eqb (fst d) (a + pos))) (combine (seq a (length l)) l)).
+Proof.
+  induction l as [|x l IH]; intros a pos; [destruct pos; reflexivity|].
+  destruct pos as [|pos]; simpl.
+  - rewrite Nat.add_0_r, Nat.eqb_refl. simpl.
+    rewrite filter_all_true; [now rewrite combine_seq_snd|].
+    intros [q s] Hin. apply in_combine_l in Hin. apply in_seq in Hin. simpl.
+    apply negb_true_iff, Nat.eqb_neq. lia.
+  - destruct (Nat.eqb_spec a (a + S pos)); [lia|]. simpl. f_equal.
+    rewrite (IH (S a) pos). f_equal. apply filter_ext. intros d. do 2 f_equal. lia.
+Qed.
+
+Lemma filter_last_nodup {A} (S' : list (nat * A)) q x :
+  NoDup (map fst (S' ++ [(q, x)])) ->
+  filter (fun d => negb (Nat.eqb (fst d) q)) (S' ++ [(q, x)]) = S'.
+Proof.
+  intros Hnd. rewrite filter_app. simpl. rewrite Nat.eqb_refl. simpl. rewrite app_nil_r.
+  rewrite map_app in Hnd. simpl in Hnd. apply NoDup_remove_2 in Hnd. rewrite app_nil_r in Hnd.
+  apply filter_all_true. intros [q' x'] Hin. simpl.
+  apply negb_true_iff, Nat.eqb_neq. intros ->. apply Hnd. apply in_map_iff. exists (q, x'). auto.
+Qed.
+
+Lemma rev_cons_inv {A} (l : list A) x r : rev l = x :: r -> l = rev r ++ [x].
+Proof. intros H. rewrite <- (rev_involutive l), H. reflexivity. Qed.
+
+Lemma plot_sers_drop_last p : plot_sers (drop_last_ser p) = removelast (plot_sers p).
+Proof.
+  unfold drop_last_ser, plot_sers.
+  destruct (rev (order_positions (p_sers p))) as [|pos r] eqn:E.
+  - assert (order_positions (p_sers p) = []) as E0.
+    { rewrite <- (rev_involutive (order_positions _)), E. reflexivity. }
+    assert (p_sers p = []) as ->.
+    { apply length_zero_iff_nil. unfold order_positions in E0.
+      apply (f_equal (@length nat)) in E0. rewrite map_length, sort_by_length in E0.
+      unfold decorate in E0. rewrite combine_length, seq_length, Nat.min_id in E0. exact E0. }
+    reflexivity.
+  - cbn [set_sers p_sers].
+    rewrite (remove_nth_filter (p_sers p) 0 pos). fold (decorate (p_sers p)). rewrite Nat.add_0_l.
+    rewrite (sort_by_map dkey s_order snd) by reflexivity.
+    rewrite sort_by_filter.
+    apply rev_cons_inv in E. unfold order_positions in E.
+    remember (sort_by dkey (decorate (p_sers p))) as S eqn:ES.
+    assert (exists S' x, S = S' ++ [(pos, x)]) as [S' [x HS]].
+    { destruct (rev S) as [|[q x] S'r] eqn:ER.
+      - assert (S = []) as -> by (rewrite <- (rev_involutive S), ER; reflexivity).
+        destruct (rev r); discriminate.
+      - apply rev_cons_inv in ER. exists (rev S'r), x. rewrite ER in E.
+        rewrite map_app in E. simpl in E. apply app_inj_tail in E. destruct E as [_ ->]. exact ER. }
+    rewrite HS, filter_last_nodup.
+    2:{ rewrite <- HS, ES. apply order_positions_nodup. }
+    rewrite <- sorted_decorate, <- ES, HS, map_app. simpl. now rewrite removelast_last.
+Qed.
+
+Lemma has_sers_area ps : has_sers ps = false -> area_sers_of ps = [].
+Proof.
+  induction ps as [|p ps IH]; simpl; auto.
+  destruct (p_sers p) eqn:E; simpl; [|discriminate]. intros H.
+  change (area_sers_of (p :: ps)) with (plot_sers p ++ area_sers_of ps).
+  rewrite IH by auto. unfold plot_sers. now rewrite E.
+Qed.
+Lemma has_sers_area_ne ps : has_sers ps = true -> area_sers_of ps <> [].
+Proof.
+  induction ps as [|p ps IH]; simpl; [discriminate|].
+  change (area_sers_of (p :: ps)) with (plot_sers p ++ area_sers_of ps).
+  destruct (p_sers p) eqn:E; simpl.
+  - intros H. apply IH in H. intros H2. apply app_eq_nil in H2. tauto.
+  - intros _ H2. apply app_eq_nil in H2. destruct H2 as [H2 _].
+    apply (f_equal (@length ser)) in H2. rewrite length_plot_sers, E in H2. discriminate.
+Qed.
+
+Lemma area_remove_last ps : area_sers_of (remove_last_ser ps) = removelast (area_sers_of ps).
+Proof.
+  induction ps as [|p ps IH]; [reflexivity|]. cbn [remove_last_ser].
+  destruct (has_sers ps) eqn:Hs.
+  - change (area_sers_of (?x :: ?r)) with (plot_sers x ++ area_sers_of r).
+    rewrite IH. symmetry. apply removelast_app. now apply has_sers_area_ne.
+  - change (area_sers_of (?x :: ?r)) with (plot_sers x ++ area_sers_of r).
+    rewrite has_sers_area, !app_nil_r by auto. apply plot_sers_drop_last.
+Qed.
+
+Lemma removelast_firstn_len {A} (l : list A) : removelast l = firstn (length l - 1) l.
+Proof.
+  destruct l as [|x l] using rev_ind; [reflexivity|].
+  rewrite removelast_last, app_length. simpl. rewrite Nat.add_sub.
+  now rewrite firstn_app, Nat.sub_diag, firstn_all, app_nil_r.
+Qed.
+
+Lemma area_iter_remove k : forall ps,
+  area_sers_of (Nat.iter k remove_last_ser ps) = firstn (length (area_sers_of ps) - k) (area_sers_of ps).
+Proof.
+  induction k as [|k IH]; intros ps.
+  - simpl. now rewrite Nat.sub_0_r, firstn_all.
+  - simpl. rewrite area_remove_last, IH, removelast_firstn_len, firstn_length.
+    rewrite firstn_firstn. f_equal. lia.
+Qed.
+
+Lemma area_filter_nonempty ps :
+  area_sers_of (filter (fun p => match p_sers p with [] => false | _ => true end) ps) = area_sers_of ps.
+Proof.
+  induction ps as [|p ps IH]; [reflexivity|]. simpl.
+  change (area_sers_of (p :: ps)) with (plot_sers p ++ area_sers_of ps).
+  destruct (p_sers p) eqn:E.
+  - rewrite IH. unfold plot_sers. now rewrite E.
+  - change (area_sers_of (p :: ?r)) with (plot_sers p ++ area_sers_of r). now rewrite IH.
+Qed.
+
+Theorem area_sers_trim k ps :
+  area_sers_of (trim k ps) = firstn (length (area_sers_of ps) - k) (area_sers_of ps).
+Proof. unfold trim. now rewrite area_filter_nonempty, area_iter_remove. Qed.
+
+(* ================================================================== cloning *)
+
+Lemma fold_max_ge r : forall v, v <= fold_left Z.max r v /\ forall y, In y r -> y <= fold_left Z.max r v.
+Proof.
+  induction r as [|a r IH]; intros v; simpl; [split; [lia|intros y []]|].
+  destruct (IH (Z.max v a)) as [H1 H2]. split; [lia|].
+  intros y [<-|Hy]; [lia|auto].
+Qed.
+Lemma next_val_gt vals v : In v vals -> v < next_val vals.
+Proof.
+  destruct vals as [|a r]; [intros []|]. unfold next_val.
+  destruct (fold_max_ge r a) as [H1 H2]. intros [<-|Hv]; [lia|]. specialize (H2 v Hv). lia.
+Qed.
+
+Lemma clone_at_split pos i o : forall l, (pos < length l)%nat ->
+  exists l1 x l2, l = l1 ++ x :: l2 /\ length l1 = pos /\
+                  clone_at pos i o l = l1 ++ x :: mkSer i o (s_kids x) :: l2.
+Proof.
+  induction pos as [|pos IH]; intros [|y l] Hl; simpl in Hl; try lia.
+  - exists [], y, l. auto.
+  - destruct (IH l ltac:(lia)) as [l1 [x [l2 [E1 [E2 E3]]]]].
+    exists (y :: l1), x, l2. simpl. rewrite E3, E2. subst l. auto.
+Qed.
+
+Lemma upd_last_snoc {A} (f : A -> A) l x : upd_last f (l ++ [x]) = l ++ [f x].
+Proof.
+  induction l as [|a l IH]; [reflexivity|]. simpl. rewrite IH.
+  destruct (l ++ [x]) eqn:E; [destruct l; discriminate|reflexivity].
+Qed.
+
+Definition dser : ser := mkSer 0 0 [].
+Definition uniq (l : list ser) : Prop := NoDup (map s_idx l) /\ NoDup (map s_order l).
+
+Lemma NoDup_snoc {A} (l : list A) x : NoDup l -> ~ In x l -> NoDup (l ++ [x]).
+Proof.
+  intros Hl Hx. apply (Permutation_NoDup (l := x :: l)); [|now constructor].
+  apply Permutation_cons_append.
+Qed.
+
+Lemma area_in_plot ps0 pl y : In y (p_sers pl) -> In y (area_sers_of (ps0 ++ [pl])).
+Proof.
+  intros Hy. rewrite area_sers_app. apply in_or_app. right.
+  change (area_sers_of [pl]) with (plot_sers pl ++ []). rewrite app_nil_r.
+  unfold plot_sers. now apply sort_by_in.
+Qed.
+
+Lemma add_one_clone ps0 pl pos :
+  (pos < length (p_sers pl))%nat ->
+  let ps := ps0 ++ [pl] in
+  let new := mkSer (next_idx ps) (next_order ps) (s_kids (nth pos (p_sers pl) dser)) in
+  let pl' := set_sers pl (clone_at pos (next_idx ps) (next_order ps) (p_sers pl)) in
+  upd_last (fun p => set_sers p (clone_at pos (next_idx ps) (next_order ps) (p_sers p))) ps = ps0 ++ [pl'] /\
+  area_sers_of (ps0 ++ [pl']) = area_sers_of ps ++ [new] /\
+  (S pos < length (p_sers pl'))%nat /\
+  s_kids (nth (S pos) (p_sers pl') dser) = s_kids (nth pos (p_sers pl) dser).
+Proof.
+  intros Hpos ps new pl'. split; [apply upd_last_snoc|].
+  destruct (clone_at_split pos (next_idx ps) (next_order ps) (p_sers pl) Hpos) as [l1 [x [l2 [E1 [E2 E3]]]]].
+  assert (Hx : nth pos (p_sers pl) dser = x).
+  { rewrite E1, app_nth2, E2, Nat.sub_diag by lia. reflexivity. }
+  split; [|split].
+  - assert (Hone : forall p, area_sers_of [p] = plot_sers p).
+    { intros p. change (area_sers_of [p]) with (plot_sers p ++ []). apply app_nil_r. }
+    assert (Hps : area_sers_of ps = area_sers_of ps0 ++ plot_sers pl).
+    { unfold ps. now rewrite area_sers_app, Hone. }
+    rewrite Hps, area_sers_app, Hone, <- app_assoc. f_equal.
+    unfold plot_sers, pl'. cbn [p_sers set_sers]. rewrite E3.
+    change (l1 ++ x :: mkSer (next_idx ps) (next_order ps) (s_kids x) :: l2)
+      with (l1 ++ [x] ++ mkSer (next_idx ps) (next_order ps) (s_kids x) :: l2).
+    rewrite app_assoc, sort_by_max.
+    + rewrite <- app_assoc. cbn [app]. rewrite <- E1. unfold new. now rewrite Hx.
+    + intros y Hy. cbn [s_order]. apply next_val_gt. apply in_map.
+      apply area_in_plot. rewrite E1. rewrite <- app_assoc in Hy. exact Hy.
+  - unfold pl'. cbn [p_sers set_sers]. rewrite E3, app_length. simpl. rewrite E1, app_length in Hpos.
+    simpl in Hpos. lia.
+  - unfold pl'. cbn [p_sers set_sers]. rewrite E3, Hx.
+    rewrite app_nth2 by lia. rewrite E2. replace (S pos - pos)%nat with 1%nat by lia. reflexivity.
+Qed.
+
+Lemma uniq_snoc l i o kids : uniq l ->
+  i = next_val (map s_idx l) -> o = next_val (map s_order l) -> uniq (l ++ [mkSer i o kids]).
+Proof.
+  intros [H1 H2] -> ->. split; rewrite map_app; simpl; apply NoDup_snoc; auto;
+    intros H; apply next_val_gt in H; lia.
+Qed.
+
+Lemma frames_snoc ps0 pl l : map frame (ps0 ++ [set_sers pl l]) = map frame (ps0 ++ [pl]).
+Proof. rewrite !map_app. reflexivity. Qed.
+
+Lemma add_cloned_spec k : forall pos ps0 pl, (pos < length (p_sers pl))%nat ->
+  exists news,
+    area_sers_of (add_cloned k pos (ps0 ++ [pl])) = area_sers_of (ps0 ++ [pl]) ++ news /\
+    length news = k /\
+    (forall s, In s news -> s_kids s = s_kids (nth pos (p_sers pl) dser)) /\
+    map frame (add_cloned k pos (ps0 ++ [pl])) = map frame (ps0 ++ [pl]) /\
+    (uniq (area_sers_of (ps0 ++ [pl])) -> uniq (area_sers_of (ps0 ++ [pl]) ++ news)).
+Proof.
+  induction k as [|k IH]; intros pos ps0 pl Hpos.
+  - exists []. rewrite app_nil_r. simpl.
+    split; [reflexivity|]. split; [reflexivity|]. split; [intros s []|]. split; [reflexivity|auto].
+  - cbn [add_cloned].
+    destruct (add_one_clone ps0 pl pos Hpos) as [E1 [E2 [E3 E4]]].
+    rewrite E1.
+    destruct (IH (S pos) ps0 _ E3) as [news [F1 [F2 [F3 [F4 F5]]]]].
+    eexists (_ :: news). rewrite F1, E2, <- app_assoc. cbn [app].
+    split; [reflexivity|]. split; [simpl; congruence|]. split; [|split].
+    + intros s [<-|Hs]; [reflexivity|]. rewrite (F3 s Hs). exact E4.
+    + rewrite F4. apply frames_snoc.
+    + intros Hu.
+      change (area_sers_of (ps0 ++ [pl]) ++ ?n :: news) with (area_sers_of (ps0 ++ [pl]) ++ [n] ++ news).
+      rewrite app_assoc. rewrite <- E2. apply F5. rewrite E2.
+      apply uniq_snoc; auto.
+Qed.
+
+(* ================================================================== _adjust_ser_count *)
+
+Lemma last_pos_lt l pos r : rev (order_positions l) = pos :: r -> (pos < length l)%nat.
+Proof.
+  intros E. assert (In pos (order_positions l)) as Hin.
+  { apply in_rev. rewrite E. now left. }
+  unfold order_positions in Hin.
+  apply (Permutation_in _ (Permutation_map fst (sort_by_perm dkey (decorate l)))) in Hin.
+  rewrite decorate_fst in Hin. apply in_seq in Hin. lia.
+Qed.
+
+Lemma frames_remove_last ps : map frame (remove_last_ser ps) = map frame ps.
+Proof.
+  induction ps as [|p ps IH]; [reflexivity|]. cbn [remove_last_ser].
+  destruct (has_sers ps); simpl; [now rewrite IH|].
+  f_equal. unfold drop_last_ser. destruct (rev _); reflexivity.
+Qed.
+Lemma frames_iter_remove k ps : map frame (Nat.iter k remove_last_ser ps) = map frame ps.
+Proof. induction k; simpl; auto. now rewrite frames_remove_last. Qed.
+
+Lemma NoDup_app_l {A} (a b : list A) : NoDup (a ++ b) -> NoDup a.
+Proof.
+  induction a as [|x a IH]; intros H; [constructor|].
+  inversion H as [|? ? Hx Hr]; subst. constructor; auto. intros Hi. apply Hx, in_or_app. now left.
+Qed.
+
+Lemma uniq_firstn n l : uniq l -> uniq (firstn n l).
+Proof.
+  intros [H1 H2]. unfold uniq. rewrite <- !firstn_map.
+  rewrite <- (firstn_skipn n (map s_idx l)) in H1. rewrite <- (firstn_skipn n (map s_order l)) in H2.
+  split; eapply NoDup_app_l; eauto.
+Qed.
+
+Definition tags_within (ps' ps : list plot) : Prop :=
+  forall p', In p' ps' -> exists p, In p ps /\ frame p' = frame p.
+
+Lemma tags_within_frames ps' ps : map frame ps' = map frame ps -> tags_within ps' ps.
+Proof.
+  intros E p' Hp'. apply (in_map frame) in Hp'. rewrite E in Hp'. apply in_map_iff in Hp'.
+  destruct Hp' as [p [Hf Hp]]. eauto.
+Qed.
+
+Theorem adjust_spec ps n ps' : adjust ps n = Ok ps' ->
+  length (area_sers_of ps') = n /\
+  (uniq (area_sers_of ps) -> uniq (area_sers_of ps')) /\
+  tags_within ps' ps /\
+  ( ((length (area_sers_of ps) <= n)%nat /\ map frame ps' = map frame ps /\
+     exists news, area_sers_of ps' = area_sers_of ps ++ news /\
+                  forall s, In s news -> exists src, In src (area_sers_of ps) /\ s_kids s = s_kids src)
+    \/ ((n < length (area_sers_of ps))%nat /\ ps' = trim (length (area_sers_of ps) - n) ps /\
+        area_sers_of ps' = firstn n (area_sers_of ps)) ).
+Proof.
+  unfold adjust. set (cur := length (area_sers_of ps)).
+  destruct (Nat.ltb_spec cur n) as [Hlt|Hge].
+  - destruct (rev ps) as [|lastp rps] eqn:Er; [discriminate|].
+    destruct (rev (order_positions (p_sers lastp))) as [|pos r] eqn:Eo; [discriminate|].
+    intros H; injection H as <-.
+    apply rev_cons_inv in Er. subst cur. subst ps.
+    pose proof (last_pos_lt _ _ _ Eo) as Hpos.
+    destruct (add_cloned_spec (n - length (area_sers_of (rev rps ++ [lastp]))) pos (rev rps) lastp Hpos)
+      as [news [F1 [F2 [F3 [F4 F5]]]]].
+    split; [rewrite F1, app_length, F2; lia|].
+    split; [intros Hu; rewrite F1; auto|].
+    split; [now apply tags_within_frames|].
+    left. split; [lia|]. split; [exact F4|]. exists news. split; [exact F1|].
+    intros s Hs. exists (nth pos (p_sers lastp) dser). split; [|now apply F3].
+    apply area_in_plot, nth_In, Hpos.
+  - destruct (Nat.ltb_spec n cur) as [Hlt|Hge2]; intros H; injection H as <-.
+    + assert (E : area_sers_of (trim (cur - n) ps) = firstn n (area_sers_of ps)).
+      { rewrite area_sers_trim. fold cur. f_equal. lia. }
+      split; [rewrite E, firstn_length; fold cur; lia|].
+      split; [intros Hu; rewrite E; now apply uniq_firstn|].
+      split.
+      { intros p' Hp'. unfold trim in Hp'. apply filter_In in Hp'. destruct Hp' as [Hp' _].
+        apply (tags_within_frames _ _ (frames_iter_remove (cur - n) ps)); auto. }
+      right. auto.
+    + split; [fold cur; lia|]. split; [auto|]. split; [now apply tags_within_frames|].
+      left. split; [lia|]. split; [reflexivity|]. exists []. rewrite app_nil_r. split; [reflexivity|intros s []].
+Qed.
+
+(* ================================================================== charts made by the writers *)
+
+Section mapi.
+  Context {X : Type} (K : X -> list child).
+  Let mk := fun (i : Z) (x : X) => mkSer i i (K x).
+
+  Lemma mapi_ge l : forall i s, In s (mapi_from i mk l) -> i <= s_idx s /\ i <= s_order s.
+  Proof.
+    induction l as [|x l IH]; intros i s; simpl; [tauto|].
+    intros [<-|H]; [simpl; lia|]. apply IH in H. lia.
+  Qed.
+  Lemma mapi_sorted l : forall i, StronglySorted (le_key s_order) (mapi_from i mk l).
+  Proof.
+    induction l as [|x l IH]; intros i; simpl; constructor; auto.
+    apply Forall_forall. intros s Hs. apply mapi_ge in Hs. unfold le_key. simpl. lia.
+  Qed.
+  Lemma mapi_uniq l : forall i, uniq (mapi_from i mk l).
+  Proof.
+    induction l as [|x l IH]; intros i; simpl; [split; constructor|].
+    destruct (IH (i + 1)) as [H1 H2]. split; simpl; constructor; auto;
+      intros Hin; apply in_map_iff in Hin; destruct Hin as [s [Es Hs]]; apply mapi_ge in Hs; lia.
+  Qed.
+  Lemma mapi_forall2 (R : ser -> X -> Prop) l : (forall i x, R (mk i x) x) ->
+    forall i, Forall2 R (mapi_from i mk l) l.
+  Proof. intros H. induction l as [|x l IH]; intros i; simpl; constructor; auto. Qed.
+End mapi.
+
+Definition reflects (s : ser) (sd : ser_data) : Prop := kids_reflect (s_kids s) sd.
+
+Definition rk_xy (rk : rkind) : bool := match rk with RCat => false | _ => true end.
+Definition is_pie (ct : Z) : bool :=
+  match writer_of ct with Some (WPie, _, _, _) => true | _ => false end.
+Definition kept {X} (ct : Z) (l : list X) : list X := if is_pie ct then firstn 1 l else l.
+
+Lemma writer_of_tag ct wk ptag pre post : writer_of ct = Some (wk, ptag, pre, post) ->
+  is_xy_plot ptag = match wk with WXy | WBubble => true | _ => false end.
+Proof.
+  unfold writer_of.
+  repeat match goal with |- context [if ?b then _ else _] => destruct b end;
+    intros H; inversion H; subst; reflexivity.
+Qed.
+
+Lemma area_one_plot ptag pl l : StronglySorted (le_key s_order) l ->
+  area_sers (mkChart false 0 [mkPlot ptag pl l]) = l.
+Proof.
+  intros Hs. unfold area_sers, area_sers_of, plot_sers. simpl. now rewrite app_nil_r, sort_by_id.
+Qed.
+
+Lemma Forall2_map_r {A B C} (R : A -> C -> Prop) (g : B -> C) l1 l2 :
+  Forall2 (fun a b => R a (g b)) l1 l2 -> Forall2 R l1 (map g l2).
+Proof. induction 1; simpl; constructor; auto. Qed.
+
+Definition rk_of (wk : wkind) (d : chart_data) : rkind :=
+  match wk, d with
+  | WBubble, DBub _ => RBub
+  | WXy, _ | WBubble, _ => RXy
+  | _, _ => RCat
+  end.
+
+Lemma reflects_nil_chart ptag :
+  area_sers (mkChart false 0 [mkPlot ptag 0 []]) = [] /\ uniq [].
+Proof. split; [reflexivity|split; constructor]. Qed.
+
+(** A chart made by a writer: one plot whose tag fits the rewriter kind [rk] of its family;
+    its series, in series order, carry the series of the data ([kept]: the pie writer
+    keeps the first only); idx and order values are unique. *)
+Theorem write_reflects ct d c : write ct d = Ok c ->
+  exists rk sds ptag sers,
+    c = mkChart false 0 [mkPlot ptag 0 sers] /\ area_sers c = sers /\
+    is_xy_plot ptag = rk_xy rk /\
+    ser_datas rk false d = Ok sds /\
+    Forall2 reflects sers (kept ct sds) /\
+    uniq sers.
+Proof.
+  unfold write. destruct (write_core ct d) as [c0|e] eqn:Hw; [|discriminate]. cbn [bind].
+  destruct (date_axis_breaks ct d); [discriminate|]. intros H; injection H as <-.
+  unfold write_core in Hw. unfold kept, is_pie.
+  destruct (writer_of ct) as [[[[wk ptag] pre] post]|] eqn:W; [|discriminate].
+  pose proof (writer_of_tag _ _ _ _ _ W) as Htag.
+  assert (Hnil : forall rk, is_xy_plot ptag = rk_xy rk -> ser_datas rk false d = Ok [] ->
+            c0 = mkChart false 0 [mkPlot ptag 0 []] ->
+            exists rk sds ptag' sers, c0 = mkChart false 0 [mkPlot ptag' 0 sers] /\ area_sers c0 = sers /\
+              is_xy_plot ptag' = rk_xy rk /\ ser_datas rk false d = Ok sds /\
+              Forall2 reflects sers (match wk with WPie => firstn 1 sds | _ => sds end) /\ uniq sers).
+  { intros rk H1 H2 ->. exists rk, [], ptag, []. destruct (reflects_nil_chart ptag) as [A B].
+    repeat split; auto; try apply B. destruct wk; constructor. }
+  destruct wk; destruct d as [f fmt sers|sers|sers]; destruct sers as [|s0 sers'];
+    cbn [bind] in Hw; try discriminate.
+  - (* category writer, category data, no series *)
+    apply (Hnil RCat); auto.
+    destruct (has_cat_axis ptag); [destruct (write_cat false f fmt); simpl in Hw|]; congruence.
+  - destruct (write_cat false f fmt) as [cx|e] eqn:Hc; [|discriminate]. cbn [bind] in Hw.
+    injection Hw as <-.
+    exists RCat, (map (SDCat cx) (s0 :: sers')), ptag,
+      (mapi_from 0 (fun i s => mkSer i i (cat_ser_kids pre post cx s)) (s0 :: sers')).
+    split; [reflexivity|].
+    split; [exact (area_one_plot ptag 0 _ (mapi_sorted (cat_ser_kids pre post cx) (s0 :: sers') 0))|].
+    split; [exact Htag|]. split; [cbn [ser_datas]; rewrite Hc; reflexivity|].
+    split; [|exact (mapi_uniq (cat_ser_kids pre post cx) (s0 :: sers') 0)].
+    apply Forall2_map_r.
+    exact (mapi_forall2 (cat_ser_kids pre post cx) (fun s x => reflects s (SDCat cx x)) (s0 :: sers')
+             (fun i x => cat_kids_reflect pre post cx x) 0).
+  - apply (Hnil RCat); auto. destruct (has_cat_axis ptag); congruence.
+  - apply (Hnil RCat); auto. destruct (has_cat_axis ptag); congruence.
+  - (* pie *)
+    destruct (write_cat false f fmt) as [cx|e] eqn:Hc; [|discriminate]. cbn [bind] in Hw.
+    injection Hw as <-.
+    exists RCat, (map (SDCat cx) (s0 :: sers')), ptag, [mkSer 0 0 (cat_ser_kids pre post cx s0)].
+    split; [reflexivity|].
+    split; [apply area_one_plot; repeat constructor|]. split; [exact Htag|].
+    split; [cbn [ser_datas]; rewrite Hc; reflexivity|].
+    split; [|split; repeat constructor; simpl; tauto].
+    cbn [map firstn]. constructor; [apply cat_kids_reflect|constructor].
+  - apply (Hnil RXy); [exact Htag|reflexivity|now inversion Hw].
+  - apply (Hnil RXy); [exact Htag|reflexivity|now inversion Hw].
+  - injection Hw as <-.
+    exists RXy, (map (fun s => SDXy (xs_name s) (xs_fmt s) (map fst (xs_pts s)) (map snd (xs_pts s))) (s0 :: sers')), ptag,
+      (mapi_from 0 (fun i s => mkSer i i (xy_ser_kids pre post (xs_name s) (xs_fmt s) (map fst (xs_pts s)) (map snd (xs_pts s)))) (s0 :: sers')).
+    split; [reflexivity|].
+    split; [exact (area_one_plot ptag 0 _ (mapi_sorted (fun s => xy_ser_kids pre post (xs_name s) (xs_fmt s) (map fst (xs_pts s)) (map snd (xs_pts s))) (s0 :: sers') 0))|].
+    split; [exact Htag|]. split; [reflexivity|].
+    split; [|exact (mapi_uniq (fun s => xy_ser_kids pre post (xs_name s) (xs_fmt s) (map fst (xs_pts s)) (map snd (xs_pts s))) (s0 :: sers') 0)].
+    apply Forall2_map_r.
+    exact (mapi_forall2 (fun s => xy_ser_kids pre post (xs_name s) (xs_fmt s) (map fst (xs_pts s)) (map snd (xs_pts s)))
+             (fun s x => reflects s (SDXy (xs_name x) (xs_fmt x) (map fst (xs_pts x)) (map snd (xs_pts x)))) (s0 :: sers')
+             (fun i x => xy_kids_reflect pre post _ _ _ _) 0).
+  - apply (Hnil RXy); [exact Htag|reflexivity|now inversion Hw].
+  - injection Hw as <-.
+    exists RXy, (map (fun s => SDXy (bs_name s) (bs_fmt s) (map (fun p => fst (fst p)) (bs_pts s)) (map (fun p => snd (fst p)) (bs_pts s))) (s0 :: sers')), ptag,
+      (mapi_from 0 (fun i s => mkSer i i (xy_ser_kids pre post (bs_name s) (bs_fmt s) (map (fun p => fst (fst p)) (bs_pts s)) (map (fun p => snd (fst p)) (bs_pts s)))) (s0 :: sers')).
+    split; [reflexivity|].
+    split; [exact (area_one_plot ptag 0 _ (mapi_sorted (fun s => xy_ser_kids pre post (bs_name s) (bs_fmt s) (map (fun p => fst (fst p)) (bs_pts s)) (map (fun p => snd (fst p)) (bs_pts s))) (s0 :: sers') 0))|].
+    split; [exact Htag|]. split; [reflexivity|].
+    split; [|exact (mapi_uniq (fun s => xy_ser_kids pre post (bs_name s) (bs_fmt s) (map (fun p => fst (fst p)) (bs_pts s)) (map (fun p => snd (fst p)) (bs_pts s))) (s0 :: sers') 0)].
+    apply Forall2_map_r.
+    exact (mapi_forall2 (fun s => xy_ser_kids pre post (bs_name s) (bs_fmt s) (map (fun p => fst (fst p)) (bs_pts s)) (map (fun p => snd (fst p)) (bs_pts s)))
+             (fun s x => reflects s (SDXy (bs_name x) (bs_fmt x) (map (fun p => fst (fst p)) (bs_pts x)) (map (fun p => snd (fst p)) (bs_pts x)))) (s0 :: sers')
+             (fun i x => xy_kids_reflect pre post _ _ _ _) 0).
+  - apply (Hnil RXy); [exact Htag|reflexivity|now inversion Hw].
+  - apply (Hnil RXy); [exact Htag|reflexivity|now inversion Hw].
+  - apply (Hnil RBub); [exact Htag|reflexivity|now inversion Hw].
+  - injection Hw as <-.
+    exists RBub, (map (fun s => SDBub (bs_name s) (bs_fmt s) (map (fun p => fst (fst p)) (bs_pts s)) (map (fun p => snd (fst p)) (bs_pts s)) (map snd (bs_pts s))) (s0 :: sers')), ptag,
+      (mapi_from 0 (fun i s => mkSer i i (bub_ser_kids (bs_name s) (bs_fmt s) (map (fun p => fst (fst p)) (bs_pts s)) (map (fun p => snd (fst p)) (bs_pts s)) (map snd (bs_pts s)))) (s0 :: sers')).
+    split; [reflexivity|].
+    split; [exact (area_one_plot ptag 0 _ (mapi_sorted (fun s => bub_ser_kids (bs_name s) (bs_fmt s) (map (fun p => fst (fst p)) (bs_pts s)) (map (fun p => snd (fst p)) (bs_pts s)) (map snd (bs_pts s))) (s0 :: sers') 0))|].
+    split; [exact Htag|]. split; [reflexivity|].
+    split; [|exact (mapi_uniq (fun s => bub_ser_kids (bs_name s) (bs_fmt s) (map (fun p => fst (fst p)) (bs_pts s)) (map (fun p => snd (fst p)) (bs_pts s)) (map snd (bs_pts s))) (s0 :: sers') 0)].
+    apply Forall2_map_r.
+    exact (mapi_forall2 (fun s => bub_ser_kids (bs_name s) (bs_fmt s) (map (fun p => fst (fst p)) (bs_pts s)) (map (fun p => snd (fst p)) (bs_pts s)) (map snd (bs_pts s)))
+             (fun s x => reflects s (SDBub (bs_name x) (bs_fmt x) (map (fun p => fst (fst p)) (bs_pts x)) (map (fun p => snd (fst p)) (bs_pts x)) (map snd (bs_pts x)))) (s0 :: sers')
+             (fun i x => bub_kids_reflect _ _ _ _ _) 0).
+Qed.
+
+(* ================================================================== reading categories back *)
+
+Definition seen_text (v : str) : str := match v with [] => s_None | _ => v end.
+Lemma pt_label_seen q : pt_label q = seen_text (pt_v q).
+Proof. unfold pt_label, seen_text. destruct (pt_v q); reflexivity. Qed.
+
+Definition cat_numeric (f : list cat_tree) (D : nat) : bool :=
+  Nat.eqb D 1 && match f with t :: _ => is_numeric_label (tree_label t) | [] => false end.
+(** The text python-pptx reports for a category label of chart data with categories [f]
+    of depth [D]: what the writer puts into c:v (line ends normalised by the XML parser),
+    except that an empty c:v reads as the word None. *)
+Definition cat_text (d1904 : bool) (f : list cat_tree) (D : nat) (l : label) : str :=
+  seen_text (xml_norm (if cat_numeric f D then label_numstr d1904 l else label_str l)).
+
+Lemma find_pt_enum_below l : forall k j, j < k -> find_pt j (rev (enum_pts k l)) = None.
+Proof.
+  induction l as [|x l IH]; intros k j Hj; simpl; auto.
+  unfold find_pt in *. rewrite find_app, IH by lia. simpl.
+  destruct (Z.eqb_spec k j); [lia|reflexivity].
+Qed.
+Lemma find_last_enum l : forall k (i : nat), (i < length l)%nat ->
+  find_last_pt (k + Z.of_nat i) (enum_pts k l) = Some (mkPt (k + Z.of_nat i) (nth i l [])).
+Proof.
+  unfold find_last_pt.
+  induction l as [|x l IH]; intros k i Hi; simpl in Hi; [lia|].
+  simpl. unfold find_pt in *. rewrite find_app. destruct i as [|i].
+  - rewrite Z.add_0_r. fold (find_pt k (rev (enum_pts (k + 1) l))).
+    rewrite find_pt_enum_below by lia. simpl. now rewrite Z.eqb_refl.
+  - replace (k + Z.of_nat (S i)) with ((k + 1) + Z.of_nat i) by lia.
+    rewrite IH by lia. reflexivity.
+Qed.
+
+Lemma depth1_leaf t : tree_depth t = Some 1%nat -> tree_subs t = [].
+Proof.
+  destruct t as [l subs]. rewrite tree_depth_node. intros [[-> _]|[Hne [D' [E Hall]]]]; [reflexivity|].
+  injection E as <-. destruct subs as [|s subs]; [congruence|].
+  inversion Hall as [|? ? Hs _]; subst. apply tree_depth_pos in Hs. lia.
+Qed.
+Lemma depth1_forest f : all_depth 1 f ->
+  leaves_f f = Z.of_nat (length f) /\ paths_f f = map (fun t => [tree_label t]) f.
+Proof.
+  induction f as [|t f IH]; intros Hall; [split; reflexivity|].
+  inversion Hall as [|? ? Ht Hr]; subst. destruct (IH Hr) as [E1 E2].
+  pose proof (depth1_leaf t Ht) as Hs. destruct t as [l subs]. simpl in Hs. subst subs.
+  cbn [leaves_f paths_f length]. rewrite leaves_node, paths_node, E1, E2. split; [lia|reflexivity].
+Qed.
+
+Lemma enum_pts_length l : forall k, length (enum_pts k l) = length l.
+Proof. induction l; intros k; simpl; auto. Qed.
+
+Lemma enum_pts_seq l : forall k,
+  enum_pts k l = map (fun j => mkPt (k + Z.of_nat j) (nth j l [])) (seq 0 (length l)).
+Proof.
+  induction l as [|x l IH]; intros k; [reflexivity|].
+  cbn [enum_pts length seq map nth]. rewrite Z.add_0_r. f_equal.
+  rewrite IH, <- seq_shift, map_map. apply map_ext. intros j. cbn [nth]. f_equal. lia.
+Qed.
+
+(** Reading the categories of a plot whose first series carries [cx] and whose category
+    count is that of the chart data. *)
+Theorem write_cat_read d1904 f fmt cx p :
+  write_cat d1904 f fmt = Ok cx -> f <> [] ->
+  plot_cat p = Some cx -> plot_cat_count p = leaves_f f ->
+  exists D, forest_depth f = Some D /\ (1 <= D)%nat /\
+    let tau := cat_text d1904 f D in
+    plot_cat_depth p = Z.of_nat D /\
+    plot_flattened p = map (map tau) (paths_f f) /\
+    plot_cat_labels p = map (fun path => tau (last path dlabel)) (paths_f f) /\
+    plot_cat_levels p = if Nat.eqb D 1 then [] else map (map (tau' tau)) (levels f).
+Proof.
+  intros Hw Hne Hcat Hcount. unfold write_cat in Hw.
+  destruct (forest_depth f) as [D|] eqn:HD; [|discriminate].
+  exists D. split; [reflexivity|].
+  pose proof (proj1 (forest_depth_all f D Hne) HD) as Hall.
+  assert (HD1 : (1 <= D)%nat).
+  { destruct f as [|t f]; [congruence|]. inversion Hall as [|? ? Ht _]; subst. eapply tree_depth_pos; eauto. }
+  split; [exact HD1|]. intros tau.
+  unfold plot_cat_depth, plot_flattened, plot_cat_labels, plot_cat_levels. rewrite Hcat, Hcount.
+  destruct (Nat.eqb_spec D 1) as [->|HDn].
+  - (* one level: strRef or numRef *)
+    destruct (depth1_forest f Hall) as [EL EP].
+    set (g := fun l => if cat_numeric f 1 then label_numstr d1904 l else label_str l).
+    set (texts := map (fun t => xml_norm (g (tree_label t))) f).
+    assert (Hcx : cx_kind cx <> 2%N /\ cx_lvls cx = [] /\ cx_flat cx = enum_pts 0 texts).
+    { unfold texts, g, cat_numeric. cbn [Nat.eqb andb] in *.
+      destruct (match f with t :: _ => is_numeric_label (tree_label t) | [] => false end);
+        cbn [andb] in Hw; injection Hw as <-; cbn [cx_kind cx_lvls cx_flat]; repeat split; discriminate. }
+    destruct Hcx as [Hk [Hl Hf]].
+    destruct (N.eqb_spec (cx_kind cx) 2) as [E|_]; [contradiction|].
+    rewrite Hl. cbn [map].
+    assert (Hlab : map (fun i => match find_last_pt (Z.of_nat i) (cat_pts_src cx) with
+                                | Some q => pt_label q | None => [] end) (seq 0 (Z.to_nat (leaves_f f)))
+                   = map (fun path => tau (last path dlabel)) (paths_f f)).
+    { unfold cat_pts_src, all_cat_pts. rewrite Hl, Hf. cbn [concat]. rewrite app_nil_r.
+      rewrite EL, Nat2Z.id, EP, map_map. cbn [last].
+      rewrite <- (map_length (fun t => tau (tree_label t)) f) at 1.
+      apply map_seq_eq. intros i x Hi. rewrite Nat.add_0_l.
+      assert (i < length f)%nat as Hlt.
+      { apply nth_error_Some. rewrite nth_error_map in Hi. destruct (nth_error f i); [discriminate|]. discriminate. }
+      pose proof (find_last_enum texts 0 i) as Hfl. rewrite Z.add_0_l in Hfl.
+      rewrite Hfl by (unfold texts; now rewrite map_length).
+      rewrite pt_label_seen. cbn [pt_v]. unfold texts.
+      rewrite nth_error_map in Hi. destruct (nth_error f i) as [t|] eqn:Et; [|discriminate].
+      injection Hi as <-.
+      rewrite (nth_map_in (fun t0 => xml_norm (g (tree_label t0))) f i (CatNode dlabel []) (@nil N)) by exact Hlt.
+      rewrite (nth_error_nth _ _ _ Et). reflexivity. }
+    split; [reflexivity|]. split; [|split; [exact Hlab|reflexivity]].
+    rewrite Hlab, EP, !map_map. reflexivity.
+  - (* several levels: multiLvlStrRef *)
+    assert (Hnum : cat_numeric f D = false).
+    { unfold cat_numeric. destruct (Nat.eqb_spec D 1); [contradiction|reflexivity]. }
+    assert (Hcx : cx = mkCatx 2 None [leaves_f f] []
+              (map (map (fun il => mkPt (fst il) (xml_norm (label_str (snd il))))) (levels f))).
+    { destruct (Nat.eqb_spec D 1) as [|_]; [contradiction|]. cbn [andb] in Hw. injection Hw as <-. reflexivity. }
+    subst cx. cbn [cx_kind cx_lvls N.eqb Pos.eqb].
+    assert (Hlv : map (map (fun q => (pt_idx q, pt_label q)))
+                    (map (map (fun il => mkPt (fst il) (xml_norm (label_str (snd il))))) (levels f))
+                  = map (map (tau' tau)) (levels f)).
+    { rewrite map_map. apply map_ext. intros lv. rewrite map_map. apply map_ext. intros [i l].
+      unfold tau', tau, cat_text. rewrite Hnum. reflexivity. }
+    rewrite Hlv, map_length.
+    destruct D as [|[|D2]]; try lia.
+    rewrite (flattened_levels tau f (S (S D2))) by auto.
+    split.
+    { rewrite (levels_uniform f (S (S D2))) by auto. now rewrite map_length, rev_length, seq_length. }
+    split; [reflexivity|]. split; [|reflexivity].
+    (* list(categories): the leaf level *)
+    rewrite (levels_uniform f (S (S D2))) by auto. rewrite rev_seq_S. cbn [map].
+    destruct (level_f_segs f (S (S D2)) (S D2) 0 Hall ltac:(lia)) as [EL [ET EP]].
+    pose proof (leaf_segs_f f (S D2) Hall) as Hones.
+    destruct (idxs_ones (segs_f (S D2) f) 0 Hones) as [EI EN].
+    set (sg := segs_f (S D2) f) in *.
+    set (texts := map (fun l => xml_norm (label_str l)) (expand sg)).
+    assert (Hlen : length (expand sg) = length sg).
+    { clear -Hones. induction sg as [|[l c] sg IH]; [reflexivity|].
+      inversion Hones as [|? ? Hc Hr]; subst. simpl in Hc. subst c. simpl. now rewrite IH. }
+    assert (Hleaf : map (fun il => mkPt (fst il) (xml_norm (label_str (snd il)))) (level_f (S D2) 0 f)
+                    = enum_pts 0 texts).
+    { rewrite EL, EI, enum_pts_seq, map_map. unfold texts. rewrite map_length, Hlen.
+      apply map_ext_in. intros j Hj. apply in_seq in Hj. cbn [fst snd].
+      now rewrite (nth_map_in _ _ _ dlabel []) by lia. }
+    assert (Hn : Z.to_nat (leaves_f f) = length texts).
+    { unfold texts. rewrite map_length, Hlen, <- ET, EN. now rewrite Nat2Z.id. }
+    assert (Hsrc : cat_pts_src (mkCatx 2 None [leaves_f f] []
+               (map (fun il => mkPt (fst il) (xml_norm (label_str (snd il)))) (level_f (S D2) 0 f)
+                :: map (map (fun il => mkPt (fst il) (xml_norm (label_str (snd il)))))
+                     (map (fun k => level_f k 0 f) (rev (seq 0 (S D2)))))) = enum_pts 0 texts).
+    { unfold cat_pts_src. cbn [cx_lvls]. rewrite Hleaf.
+      destruct (enum_pts 0 texts) eqn:E; [|reflexivity].
+      exfalso. apply (f_equal (@length pt)) in E. rewrite enum_pts_length, <- Hn in E. simpl in E.
+      assert (1 <= leaves_f f).
+      { destruct f as [|t f]; [congruence|]. simpl. pose proof (leaves_pos t). pose proof (leaves_f_nonneg f). lia. }
+      lia. }
+    rewrite Hsrc, Hn.
+    assert (Hp : map (fun path => tau (last path dlabel)) (paths_f f) = map seen_text texts).
+    { unfold texts. rewrite (expand_segs_f f (S (S D2)) (S D2)) by auto. rewrite !map_map.
+      apply map_ext_in. intros path Hpath.
+      pose proof (paths_f_length f (S (S D2)) Hall) as HF. rewrite Forall_forall in HF.
+      specialize (HF path Hpath). unfold tau, cat_text. rewrite Hnum. do 3 f_equal.
+      clear -HF. rewrite <- (rev_involutive path) at 1. 
+      assert (length (rev path) = S (S D2)) by now rewrite rev_length.
+      destruct (rev path) as [|x r] eqn:E; [discriminate|]. simpl. rewrite last_last.
+      replace path with (rev r ++ [x]) by (rewrite <- (rev_involutive path), E; reflexivity).
+      simpl in H. rewrite app_nth2; rewrite rev_length; [|lia].
+      replace (S D2 - length r)%nat with 0%nat by lia. reflexivity. }
+    rewrite Hp. rewrite <- (map_length seen_text texts) at 1.
+    apply map_seq_eq. intros i x Hi. rewrite Nat.add_0_l.
+    rewrite nth_error_map in Hi. destruct (nth_error texts i) as [v|] eqn:Ev; [|discriminate].
+    injection Hi as <-.
+    assert (i < length texts)%nat by (apply nth_error_Some; congruence).
+    pose proof (find_last_enum texts 0 i H) as Hfl. rewrite Z.add_0_l in Hfl. rewrite Hfl.
+    rewrite pt_label_seen. cbn [pt_v]. now rewrite (nth_error_nth _ _ _ Ev).
+Qed.
